@@ -12,2572 +12,1243 @@ Definition show_fres (r : fres) : string :=
   end.
 Definition check (rs : list rune) : string := digest (show_fres (format_res rs)).
 Definition full (rs : list rune) : string := show_fres (format_res rs).
-Eval vm_compute in ("<<<M980>>>" ++ check (runes_of_ascii "packet
-trueish {
-Packet{u8x
-    // " ++ [128512]%N ++ runes_of_ascii " emoji
-    { match Packet as f32a//	t
-{ [255  ,255, 1 ] :calculatedFrom ,
-    // packet A { u8 x, }
-    ""// no comment""  : a1// c
-,  10
-    :
-Foo
-    //
-    , ""\" ++ [233]%N ++ runes_of_ascii """ :
-//
-// packet A { u8 x, }
-repeatCount , ""abc"" :MetaDataX
-    , 00:u128}
-, repeat o //x
-roots
-`tab	here` , // @lengthOf(
-int16 packetx`" ++ [28040; 24687; 31867; 22411]%N ++ runes_of_ascii "` ,
-}, } ,crc @lengthOf(i8i8 )	``
+Eval vm_compute in ("<<<M2059>>>" ++ check (runes_of_ascii "  root 
+packet  Logon
+	{ zchar[
+
+65535
+	]uint8x ,
+@leftPad( 
+) 
+repeat  f32
+    Packet
 ,
-repeat uint8 body ,@leftPad	( '\x00' ) string packetx@calculatedFrom(	""packet""
-) , f64
-int
-    `line1
-line2`
-, } packet crc {	i32 u128 `line1
-line2`  , @tag( 42 )lengthOf {
-    leftPad@lengthOf(
-    repeatCount
-    ) , u16 _x ,match rootA as// `tick` ""quote"" 'q'
-msg_type
-    { [ """"
-    ] : Z9_ 0
-/// triple
-// `tick` ""quote"" 'q'
-: tag ""\" ++ [233]%N ++ runes_of_ascii """	: As,""1"" :Logon //	t
-,00	: A 3:BodyLength ,	} , } ,	@tag( 1 )int8
-Pad
-, zchar[ 65535
-    // `tick` ""quote"" 'q'
-    ]
-asx // trailing space 
-,
-}
-options
-{trueish
-    // trailing space 
-    =	false ; } packet Packet	{ @calculatedFrom( ""abc"" ) u {repeat Logon {
-char[] msg_type @calculatedFrom(
-    // packet A { u8 x, }
-    ""a\""b""
-    )	`// not a comment`, }, repeat char[ // a // b
-00]
-rootA , }
-    ,
-// " ++ [128512]%N ++ runes_of_ascii " emoji
-//
-@calculatedFrom(""abc"" )string
-    float,
-match Foo as Z9_{ [	0 , ""packet"" // packet A { u8 x, }
-, ""a	b"" , 007 , 4294967296 , ""\n"" ]
-    :trueish
-,
-[ 65535, """ ++ [28040; 24687]%N ++ runes_of_ascii """] : u8x 65535:roots
-    // a // b
-    [""CRC32""]: falsey ,  00
-// `tick` ""quote"" 'q'
-// `tick` ""quote"" 'q'
-: roots
-,} , @rightPad (	' ' // packet A { u8 x, }
-)
-    x_y_z @calculatedFrom(
-""\" ++ [233]%N ++ runes_of_ascii """ )
-, }packet matchKey {// c
-@tag( 7	) leftPad
-@calculatedFrom(""\" ++ [233]%N ++ runes_of_ascii """ )
-`" ++ [233]%N ++ runes_of_ascii "`  ,  @tag(
-    007 ) uint8
-leftPad
-, int {i16 x``
-, match
-    len
+@leftPad  ( 
+' ' 
+//x
+    //	t
+  )
+
+match i8i8
     as
-    f32a {""it's"":calculatedFrom	,  [ 0
-] : lengthOf
-, 7 // @lengthOf(
-: // packet A { u8 x, }
-x_y_z
-, ""a\""b"" : float
-    // c
-    ,1
-    :Pad,  } , } , o {
-    // @lengthOf(
-    u8x
-    metadata`tab	here` , asx
-    {
-    match // trailing space 
-int
-    // c
-    as
-    /// triple
-    x_y_z
-/// triple
-// packet A { u8 x, }
-{ ""a	b"" :  falsey}
-    ,	}
-, repeat int16 As  `crlf
-line`// c
-, }
-    // " ++ [27880; 37322]%N ++ runes_of_ascii "
-    , i32 i64_  `" ++ [233]%N ++ runes_of_ascii "`
-//	t
-/// triple
-,T , }
-// c
-")).
-Eval vm_compute in ("<<<M4498>>>" ++ check (runes_of_ascii "// " ++ [27880; 37322]%N ++ runes_of_ascii "
-options {
-    zchar = ""x y"";
-    options1 = u16;
-}
 
-packet Pad {
-    Z9_ @calculatedFrom("""") `
-    `,
-    @tag(42)
-    //
-    @tag(00)
-    @lengthOf(zchar)
-    match _x as metadata {
-        007 : As,
-        ""`tick`"" : lengthOf,
-        255 : lengthOf,
-        ""a	b"" : Packet,
-        255 : a1,
-        // c
-        [
-            00, 0, 10, ""a\\"", ""it's"",
-            10, 7
-        ] : Foo,
-    },
-    match Header as o {
-        [255] : zchar,
-        0123456789 : leftPad,
-        [007, 3] : leftPad,
-        // c
-        0 : packetx,
-    },
-}
-
-MetaData Pad {
-    // packet A { u8 x, }
-}
-
-packet T {
-    // " ++ [27880; 37322]%N ++ runes_of_ascii "
-    charz @lengthOf(asx) ``,
-}
-
-packet matchKey {
-    @tag(3)
-    @calculatedFrom(""a	b"")
-    @calculatedFrom("""")
-    pack rootA,
-    repeat leftPad ``,
-    repeat uint32 Foo `u8 x,`,
-    @calculatedFrom(""" ++ [233]%N ++ runes_of_ascii "t" ++ [233]%N ++ runes_of_ascii """)
-    repeat char[65535] u,
-    @lengthOf(_x)
-    @lengthOf(u8x)
-    repeat zchar[0123456789] x,
-    match i64_ as falsey {
-        // trailing space 
-        255 : f32a,
-        ""{,}"" : x,
-        ""\" ++ [233]%N ++ runes_of_ascii """ : matchKey,
-        [
-            """", ""{,}"", 10, """ ++ [128512]%N ++ runes_of_ascii """, ""a	b"",
-            0, ""1"", 65535
-        ] : len,
-        ""\" ++ [233]%N ++ runes_of_ascii """ : T,
-        [
-            ""CRC32"", 1, ""// no comment"", 007, 1,
-            ""`tick`"", """ ++ [128512]%N ++ runes_of_ascii """
-        ] : a1,
-    },
-    match x as As {
-        ""a	b"" : o,
-        007 : MetaDataX,
-        [""a	b""] : falsey,
-        ""// no comment"" : Z9_,
-        ""packet"" : _x,
-    },
-    repeat rootA {
-        uint8 MetaDataX @calculatedFrom(""abc""),
-        match int as asx {
-            [10, 10, ""`tick`"", 00, 4294967296] : o,
-            ""CRC32"" : string_,
-            [0] : roots,
-            65535 : _x,
-            ""it's"" : Pad,
-            4294967296 : Pad,
-        },
-        u16 chars `line1
-        line2`,//x
-    },
-}")).
-Eval vm_compute in ("<<<M4242>>>" ++ check (runes_of_ascii "MetaData leftPad {
-    Header falsey,
-}
-
-packet x_y_z {
-    @calculatedFrom(""`tick`"")
-    @rightPad('\x00')
-    match matchKey as As {
-        [""CRC32"", ""\n""] : Logon,
-        [007, """ ++ [28040; 24687]%N ++ runes_of_ascii """, """ ++ [28040; 24687]%N ++ runes_of_ascii """, """ ++ [128512]%N ++ runes_of_ascii """, 0123456789] : x,
-        [1] : i8i8,
-        ""`tick`"" : u8x,
-    },
-    int64 _x `tab	here`,
-    @rightPad()
-    char[255] uint8x `a\`,
-    string string_,
-    repeat int16 packetx,// " ++ [27880; 37322]%N ++ runes_of_ascii "
-    @rightPad(' ')
-    string string_,
-    i16 asx @lengthOf(int) `// not a comment`,
-    float32 uint8x,
-    i8 i64_ @calculatedFrom(""\n""),
-}
-
-packet T {
-    string_ @lengthOf(A) `{ , }`,
-    @calculatedFrom("""")
-    match Pad as u {
-        [""1"", ""1""] : body,
-        [0123456789, ""a\\"", """ ++ [128512]%N ++ runes_of_ascii """, ""it's"", ""it's""] : lengthOf,
-        """ ++ [128512]%N ++ runes_of_ascii """ : A,
-        [0123456789, 3] : rootA,
-        4294967296 : rootA,
-    },
-    string metadata @lengthOf(A),
-    @lengthOf(msg_type)
-    @rightPad(' ')
-    @rightPad()
-    f64 u128 @lengthOf(rootA) `{ , }`,
-}
-
-packet int {
-    @tag(255)
-    @rightPad(' ')
-    repeat char[10] u128,
-    @calculatedFrom(""\" ++ [233]%N ++ runes_of_ascii """)
-    char[007] calculatedFrom,
-    @rightPad('\x00')
-    repeat zchar[007] i8i8,
-    @calculatedFrom(""// no comment"")
-    char[] x_y_z,
-    zchar[0123456789] msg_type @calculatedFrom(""a\""b""),
-    u8 f32a @lengthOf(rootA) `crlf
-        line`,
-    zchar[7] msg_type @lengthOf(Header) `// not a comment`,
-    char[42] roots `" ++ [233]%N ++ runes_of_ascii "`,
-    @lengthOf(stringy)
-    @lengthOf(As)
-    // trailing space 
-    // " ++ [128512]%N ++ runes_of_ascii " emoji
-    zchar[7] msg_type `{ , }`,
-}
-
-root packet u {
-    // c
-    repeat uint64 As,
-}")).
-Eval vm_compute in ("<<<M641>>>" ++ check (runes_of_ascii "options { T=""it's"" ; // trailing space 
-Z9_  =""\" ++ [233]%N ++ runes_of_ascii """
-int = '\x00'u8x  =	""`tick`""crc
-=""packet"" ;	} root // packet A { u8 x, }
-packet string_ { match charz
-//x
-// c
-as u { // " ++ [128512]%N ++ runes_of_ascii " emoji
-0123456789 :
-    zchar , 42
-    // packet A { u8 x, }
-    :rootA ,  007:
-//	t
-// packet A { u8 x, }
-crc , """ ++ [28040; 24687]%N ++ runes_of_ascii """ : Foo[
-007	, ""x y"" ] :int , // " ++ [27880; 37322]%N ++ runes_of_ascii "
-}
-,
-    @tag(  7
-// a // b
-// @lengthOf(
-) repeat
-// `tick` ""quote"" 'q'
-//
-metadata, string len // a // b
-@lengthOf( o ) `crlf
-line` , repeat int32 falsey `
-`
-// a // b
-// " ++ [27880; 37322]%N ++ runes_of_ascii "
-, @leftPad( )
-x
-    @calculatedFrom(
-    ""// no comment"" )`// not a comment`
-,uint16 rootA , @lengthOf( a1// `tick` ""quote"" 'q'
-) char calculatedFrom , @tag( /// triple
-3 ) zchar[ 65535 ]	body ,}
-packet Logon // `tick` ""quote"" 'q'
-{ @leftPad (/// triple
-)@tag( 7 )
-char
-u128 `say ""hi""` ,
-@tag( 10 ) char[42  ]
-    roots , } root // " ++ [27880; 37322]%N ++ runes_of_ascii "
-packet	i64_ {
-    repeat
-    _x { repeat
-    // @lengthOf(
-    MetaDataX o //x
-, } , u128 { asx { u8 a1  ,
-repeat	As, // a // b
-}	,} ,
-    int16 Foo ,
-    u64
-asx `
-` , u8x @lengthOf( crc ) //	t
-, @calculatedFrom(
-    // `tick` ""quote"" 'q'
-    ""CRC32"" ) @lengthOf(body	) @tag( 7 ) falsey
-//x
-// a // b
-body
-`{ , }` ,	MetaDataX { trueish
-MetaDataX`tab	here` , char[ 3 ] i8i8
-@calculatedFrom(""" ++ [128512]%N ++ runes_of_ascii """  )
-`" ++ [233]%N ++ runes_of_ascii "`, },
-}options { _x
-=false
-    _x
-    =// c
-char[
-    0123456789 ]	repeatCount
-=
-    ' '_x = ""packet"";
-}
-
-")).
-Eval vm_compute in ("<<<M3644>>>" ++ check (runes_of_ascii "// top
-options
-    // c0
-{ // c1a
-  // c1b
-LittleEndian // c2
-= // c3
-false // c4a
-  // c4b
-;
-    // c5
-ArrayPrefixLenType // c6a
-  // c6b
-= u8 ; // c9
-FixedStringPadChar
-    // c10
-= // c11
-'0'
-    // c12
-; // c13a
-  // c13b
-}
-    // c14
-packet // c15
-Order // c16a
-  // c16b
-{ InNote94 // c18
-{ // c19
-f32 // c20
-f1
-    // c21
-,
-    // c22
-f64 Side2 // c24
-, // c25
-repeat // c26a
-  // c26b
-InTail47 // c27a
-  // c27b
-{ // c28a
-  // c28b
-char[] // c29a
-  // c29b
-seqNo , // c31
-char[] Tail , // c34a
-  // c34b
-char[] // c35
-lastPx
-    // c36
-,
-    // c37
-} , } // c40a
-  // c40b
-,
-    // c41
-zchar[ 7 // c43
-] f1 // c45
-, // c46
-u8 // c47a
-  // c47b
-Side2 , // c49
-} // c50a
-  // c50b
-root packet // c52
-Reject // c53a
-  // c53b
-{
-    // c54
-repeat // c55a
-  // c55b
-char[ // c56a
-  // c56b
-4
-    // c57
-] // c58
-Flags
-    // c59
-, // c60
-InPrice63 { InSeqno41 { repeat // c65a
-  // c65b
-i8 OrderId
-    // c67
-, repeat // c69a
-  // c69b
-i32 // c70a
-  // c70b
-clOrdID
-    // c71
-, char[ // c73
-9
-    // c74
-] tag7 // c76
-, // c77a
-  // c77b
-char[] // c78a
-  // c78b
-lastPx // c79a
-  // c79b
-, // c80
-} // c81
-, // c82a
-  // c82b
-Order , // c84a
-  // c84b
-uint8 Side2
-    // c86
-, // c87a
-  // c87b
-} ,
-    // c89
-}
-    // c90
-")).
-Eval vm_compute in ("<<<M350>>>" ++ check (runes_of_ascii "packet
-matchKey
-    {	zchar[ 3
-    ]
-// `tick` ""quote"" 'q'
-// packet A { u8 x, }
-A,msg_type
-`a\` , MetaDataX As  , @lengthOf(
-    Z9_ )repeat
-    f32 _x ,
-    @lengthOf(Pad ) uint32 //	t
-Logon
-    , // a // b
-@tag( 4294967296 ) T	`doc` ,
-len  ,
-body { repeat
-    o { match i8i8 as	body{ 65535
-:lengthOf,
-[ ""\n"" ] : i64_ 3
-: asx , [
-""packet""
-,
-    /// triple
-    007	,
-""{,}""  , ""// no comment""
-] : repeatCount ,[ ""// no comment"",
-    7
-    ,	""\" ++ [233]%N ++ runes_of_ascii """, 0123456789 //
-, ""a\""b"" ] : roots
-} ,
-match repeatCount as As
-{ """"
-    /// triple
-    : //	t
-o ,
-    }
-, } , zchar[ 0 ]BodyLength `` ,
-    lengthOf,}, i16 Z9_ , } packet
-    tag { @tag(
-    // `tick` ""quote"" 'q'
-    1 ) repeat float i8i8`" ++ [28040; 24687; 31867; 22411]%N ++ runes_of_ascii "` // `tick` ""quote"" 'q'
-,  @rightPad ( )@lengthOf( _x) @rightPad ( // c
-'0'
-)
-Packet, Foo /// triple
-@lengthOf(
-    u128
-) `doc` ,
-@tag( 007 ) // packet A { u8 x, }
-string repeatCount , o {match leftPad as lengthOf {
-[
-    0123456789  ,
-""1"" ] :
-    x_y_z  , [ """ ++ [128512]%N ++ runes_of_ascii """] : i8i8
-, [// @lengthOf(
-""a\""b"" , ""a	b"" ]
-: Foo , [ ""\" ++ [233]%N ++ runes_of_ascii """ ] : Pad,
-    [ ""a	b"" , 42
-//
-//	t
-, """ ++ [233]%N ++ runes_of_ascii "t" ++ [233]%N ++ runes_of_ascii """ ,	3 ,	""" ++ [28040; 24687]%N ++ runes_of_ascii """,
-    00 ,
-7 ]  : packetx ,
-42
-    //x
-    : falsey,}
-,},}packet body
-{ }")).
-Eval vm_compute in ("<<<M983>>>" ++ check (runes_of_ascii "packet Packet { MetaDataX	{
-// " ++ [128512]%N ++ runes_of_ascii " emoji
-// trailing space 
-zchar[
-    // @lengthOf(
-    255 ] crc
-    @calculatedFrom( ""`tick`"") `doc`
-    , // c
-},
-u32 As`
-`,
-    @lengthOf(
-chars) f64
-leftPad	`// not a comment` ,
-repeat char[ 3 ] len  `doc`
-, match
-u8x as
-chars {4294967296: f32a
-    , [
-255, 4294967296 ]: string_ 0 :chars , // packet A { u8 x, }
-""a\""b"" : options1 7
-: falsey ,	} , @lengthOf( // c
-len
-// `tick` ""quote"" 'q'
-// @lengthOf(
-) repeat char[10
-    // " ++ [27880; 37322]%N ++ runes_of_ascii "
-    ]
-Header `crlf
-line`, // " ++ [27880; 37322]%N ++ runes_of_ascii "
-rootA
-asx
-`two words` ,
-}packet //x
-Packet{ @tag(//
-00 ) u16 asx
-    ,	@calculatedFrom( ""a\""b"" ) charz @lengthOf( a1 )
-, @lengthOf( asx)
-    repeat string
-    falsey
-, u32 options1@lengthOf(
-    packetx) `it's`//x
-,} packet
-metadata { int16 i8i8 ,
-i32 tag
-//x
-//
-`line1
-line2` ,	@calculatedFrom( ""a\\""
-//x
-//	t
-) // trailing space 
-@lengthOf( repeatCount )
-MetaDataX {
-repeat
-x_y_z,  }
-,lengthOf tag `" ++ [233]%N ++ runes_of_ascii "`
-    ,
-    }
-MetaData//	t
-Foo
-{
-body chars
-, char[] asx `// not a comment`,char u8x
-//
-// a // b
-, x trueish `crlf
-line`
-, char[] options1
-`u8 x,`
-, }")).
-Eval vm_compute in ("<<<M947>>>" ++ check (runes_of_ascii "packet chars {
-    u8 _x@calculatedFrom(
-    """ ++ [233]%N ++ runes_of_ascii "t" ++ [233]%N ++ runes_of_ascii """ )
-, @lengthOf( stringy //
-)
-@calculatedFrom( ""a\""b"" ) repeat options1 {body uint8x
-`doc` ,
-a1 @lengthOf( f32a ) `tab	here` ,
-repeat body // `tick` ""quote"" 'q'
-{ float64 BodyLength
-,
-    } ,
-    // @lengthOf(
-    }  ,@lengthOf(
-uint8x ) chars//	t
-`crlf
-line`
-, @lengthOf( // c
-crc
-    // `tick` ""quote"" 'q'
-    )@tag( 4294967296	)	char[] i8i8`tab	here` , char[]x
-    `// not a comment` ,repeat string uint8x ,	@calculatedFrom( ""// no comment"" ) @calculatedFrom( ""it's""	)	i8 falsey , int @calculatedFrom( """ ++ [233]%N ++ runes_of_ascii "t" ++ [233]%N ++ runes_of_ascii """ )
-,
-    // " ++ [27880; 37322]%N ++ runes_of_ascii "
-    match u128 as Foo {""" ++ [28040; 24687]%N ++ runes_of_ascii """ :trueish,	[ """ ++ [128512]%N ++ runes_of_ascii """//	t
-, ""1"" // a // b
-, 42 ,""" ++ [233]%N ++ runes_of_ascii "t" ++ [233]%N ++ runes_of_ascii """ ] // packet A { u8 x, }
-:
-Pad[0123456789 // packet A { u8 x, }
-]:
-    repeatCount
+body // a // b
+  {
+	65535 : MetaDataX 
+, 
 007
-:calculatedFrom }
+    :
+	Packet
+}
+,  @calculatedFrom( ""packet""
+
+)
+    uint8x 
+,  Foo@lengthOf(
+	asx
+    //	t
+  )  ,
+
+    i64 int
+
+, //
+@leftPad
+
+    (
+' '
+    )
+
+repeat
+rootA{int32
+zchar, match 
+stringy as
+	MetaDataX
+
+    {
+	[ """ ++ [28040; 24687]%N ++ runes_of_ascii """,
+	10
+	,
+	42	,
+""a\""b"" ,
+
+    42 
+, 7]:
+    msg_type
+,[42 ]
+	:
+
+    stringy	, ""a\\""
+    : 
+Header
+255
+    :
+	calculatedFrom 
+        //	t
+, 
+    // a // b
+		/// triple
+[	007// " ++ [27880; 37322]%N ++ runes_of_ascii "
+
+  ] :
+/// triple
+    	//x
+	MetaDataX
+,	""a\""b"" 
+
+    //	t
+://
+    	stringy 	 // " ++ [128512]%N ++ runes_of_ascii " emoji
+	  ,
+}
+    ,	char[ 007
+]
+int@lengthOf(o) `" ++ [233]%N ++ runes_of_ascii "`  // `tick` ""quote"" 'q'
+	, 
+    // trailing space 
+		//x
+  } , @leftPad
+	(
+	    //
+
+// @lengthOf(
+)
+@lengthOf(
+
+    metadata
+) match asx	as
+leftPad
+	{
+
+    ""x y""	:
+    matchKey// packet A { u8 x, }
+	}  // " ++ [27880; 37322]%N ++ runes_of_ascii "
+
+	,
+	repeat leftPad
+`say ""hi""`
+    , char[ //	t
+	65535 	 // c
+
+] // a // b
+  Packet 
+,	}
+
+root packet // a // b
+
+x_y_z
+
+{
+	match
+	uint8x
+as
+
+    As {
+
+[ 
+0123456789  ]:
+    T
+    65535  :
+    x_y_z""\n""
+    //
+
+:
+    u
 ,
-    // packet A { u8 x, }
-    }options { trueish = 10; //x
-Packet = true ; u128
-= false ; charz	= 007 ;
-    // " ++ [27880; 37322]%N ++ runes_of_ascii "
-    } options  { Pad = ""`tick`""// packet A { u8 x, }
-leftPad = true
-// a // b
-// " ++ [27880; 37322]%N ++ runes_of_ascii "
-charz  = char[] ;	_x = //x
-true }
+
+4294967296 :
+
+Packet
+	[
+    65535
+    ]: T
+    , 
+255	:
+
+uint8x	}
+,
+int32
+Packet
+`tab	here`,
+@calculatedFrom(  """" ) 
+@calculatedFrom(""a\\""	)
+
+u64 repeatCount  @calculatedFrom(
+"""" 
+)
+
+,	Header
+zchar  `doc`
+,  match
+	_x
+as
+
+metadata	// " ++ [128512]%N ++ runes_of_ascii " emoji
+	{
+
+[255
+    ,  ""1""
+    ] :  Logon
+[ 
+""" ++ [233]%N ++ runes_of_ascii "t" ++ [233]%N ++ runes_of_ascii """  , 
+00
+    ,65535 
+,
+
+    7, 42
+,
+
+00
+
+] :
+packetx, 4294967296	:  stringy
+        //	t
+  	,
+}
+
+, char[ 00
+
+    ]tag`doc`
+    ,@lengthOf(  int
+)
+
+    string  u ,  @tag(007 ) int16 
+stringy , float64 crc
+,	@calculatedFrom(""x y""
+)
+repeat 
+u16	f32a,} 
+options { u128
+
+= 
+""CRC32""
+
+    options1
+	=// packet A { u8 x, }
+  false 
+u8x
+=  ""`tick`"";
+
+    }
 
 ")).
-Eval vm_compute in ("<<<M4421>>>" ++ check (runes_of_ascii "packet uint8x {
-    zchar[007] Header @calculatedFrom(""a	b""),
+Eval vm_compute in ("<<<M266>>>" ++ check (runes_of_ascii "packet asx { Logon{ body
+@calculatedFrom( // trailing space 
+""it's"" ) , // @lengthOf(
+char[ 3] MetaDataX , string
+    leftPad `crlf
+line` , u128@calculatedFrom( ""packet""
+    ),} , } //x
+packet
+x_y_z
+    // packet A { u8 x, }
+    { len {
+    match leftPad// c
+as
+rootA {[007 // trailing space 
+, ""a\\"" , 0123456789,
+    ""\" ++ [233]%N ++ runes_of_ascii """ , ""`tick`"" , ""{,}""
+    ] : falsey , 4294967296:	matchKey
+, // packet A { u8 x, }
 }
-
-packet i64_ {
-    @lengthOf(crc)
-    /// triple
-    string metadata `
-        `,// trailing space 
-    uint8x {
-        repeat u16 string_,
-    },// `tick` ""quote"" 'q'
-    packetx {
-        zchar[0123456789] calculatedFrom @calculatedFrom(""" ++ [28040; 24687]%N ++ runes_of_ascii """) `crlf
-                line`,
-        tag {
-            zchar[007] tag @calculatedFrom(""1""),
-            string u,
-            repeat A T,
-            roots @lengthOf(Logon),
-            // `tick` ""quote"" 'q'
-        },
-        u8x ``,
-        int64 metadata `tab	here`,
+    , int32 //	t
+Z9_ // " ++ [27880; 37322]%N ++ runes_of_ascii "
+,a1
+{
+    x_y_z ,
+    repeat	_x `doc` , char[]falsey
+    @lengthOf(u128) `doc` ,
+    }/// triple
+,match Foo as
+stringy {7 : asx // " ++ [128512]%N ++ runes_of_ascii " emoji
+, ""x y""	:
+    calculatedFrom
+, }
+    , }, @lengthOf(i64_ ) @rightPad ( /// triple
+'\x00'// @lengthOf(
+)@tag( 42 )  char[]
+repeatCount ,
+match	Z9_ //x
+as  int {[//x
+""a	b"" ,	""abc""
+    , 255 , 7 // " ++ [128512]%N ++ runes_of_ascii " emoji
+] :asx
+""1"" : chars , [ ""a	b"", 00 ,4294967296 ] :
+leftPad , [
+65535
+, //x
+0 , //	t
+""abc"" // a // b
+, ""it's"", 007 ,
+    ""x y"" ,
+    255,3 ]  :
+leftPad
+    , [
+    //x
+    4294967296]: u
+,
+// " ++ [128512]%N ++ runes_of_ascii " emoji
+// " ++ [128512]%N ++ runes_of_ascii " emoji
+0123456789 :a1  } ,
+x_y_z  u8x ,  asx{ repeat
+Header float `crlf
+line`
+    , rootA
+charz// " ++ [128512]%N ++ runes_of_ascii " emoji
+`a\` , } , @calculatedFrom(""CRC32"" ) string string_
+,  @tag(
+65535 )  @rightPad ( '\x00' ) u8x	a1 `{ , }` , } options { // c
+float = // " ++ [27880; 37322]%N ++ runes_of_ascii "
+007 }
+root // c
+packet
+metadata {
+}
+")).
+Eval vm_compute in ("<<<M1966>>>" ++ check (runes_of_ascii "root packet x_y_z {
+    match Z9_ as u {
+        255 : pack,
+        255 : u128,
+        007 : float,
+        ""\n"" : options1,
+        [""" ++ [28040; 24687]%N ++ runes_of_ascii """, 1] : Z9_,
+        """ ++ [28040; 24687]%N ++ runes_of_ascii """ : chars,
+    },
+    u8 _x @calculatedFrom(""" ++ [28040; 24687]%N ++ runes_of_ascii """) `say ""hi""`,
+    @tag(3)
+    match a1 as msg_type {
+        [""\n"", 255, 0] : crc,
     },
 }
 
-packet rootA {
-    @lengthOf(string_)
-    Header A `doc`,
-    match stringy as x {
-        // c
-        0123456789 : metadata,
-        0 : rootA,
-        42 : A,
-        [00, ""abc""] : T,
-        4294967296 : a1,
-        // @lengthOf(
+root packet o {
+    match tag as _x {
+        007 : x,
+        10 : charz,
+        ""{,}"" : body,
+        """ ++ [233]%N ++ runes_of_ascii "t" ++ [233]%N ++ runes_of_ascii """ : len,
+        """ ++ [128512]%N ++ runes_of_ascii """ : u,
     },
-    @rightPad('0')
-    @tag(4294967296)
-    @tag(00)
-    char[] Foo @calculatedFrom(""1"") `crlf
-        line`,
-}")).
-Eval vm_compute in ("<<<M3964>>>" ++ check (runes_of_ascii "MetaData u {
-    metadata x_y_z,
-    i8i8 len `it's`,
-    zchar[42] options1 `{ , }`,
+    u64 u @calculatedFrom(""x y"") `it's`,
+    @lengthOf(trueish)
+    repeat uint8 u8x `" ++ [28040; 24687; 31867; 22411]%N ++ runes_of_ascii "`,
+    @calculatedFrom(""\n"")
+    @rightPad()
+    @leftPad('\x00')
+    repeat uint32 float,
+    @lengthOf(A)
+    @tag(0123456789)
+    @rightPad(' ')
+    zchar[10] o,
+    uint8x @calculatedFrom(""a\\"") `
+        `,
+    body,
+    repeat char[10] string_ `tab	here`,
+}
+
+root packet roots {
 }
 
 packet u {
-    @calculatedFrom(""abc"")
-    // c
-    // " ++ [27880; 37322]%N ++ runes_of_ascii "
-    char[0123456789] string_ @lengthOf(Logon) `a\`,
-    string string_ @lengthOf(float),
-    char[] crc `line1
-    line2`,
-    @lengthOf(metadata)
-    u128 {
-        char[] T,
-    },
-    f64 As @calculatedFrom(""// no comment""),
-    repeat Z9_ chars `u8 x,`,
-    @calculatedFrom(""packet"")
-    repeat a1 tag,
-}
-
-packet A {
-    @tag(7)
-    @rightPad()
-    @tag(0123456789)
-    repeat crc {
-        repeatCount As,
-    },
-    match pack as u {
-        ""packet"" : Pad,
-        ""1"" : u8x,
-        007 : Packet,
-        [""packet"", """ ++ [28040; 24687]%N ++ runes_of_ascii """] : BodyLength,
-        ""1"" : asx,
-    },
-    match i64_ as Header {
-        4294967296 : _x,
-        007 : packetx,
-        [007] : A,
-        //	t
-    },
-    uint8 BodyLength,
-    @lengthOf(i64_)
-    u8 falsey,
+    @calculatedFrom(""" ++ [128512]%N ++ runes_of_ascii """)
+    f64 Logon @calculatedFrom(""1"") `a\`,
+    int16 trueish `line1
+        line2`,//
+    zchar[0123456789] BodyLength `two words`,
+    float32 i8i8 @lengthOf(metadata) `// not a comment`,
+    i32 leftPad,
 }")).
-Eval vm_compute in ("<<<M19>>>" ++ check (runes_of_ascii "packet
-int // " ++ [27880; 37322]%N ++ runes_of_ascii "
-{ repeat // @lengthOf(
-MetaDataX // a // b
-{ //	t
-pack
-    { repeat Pad	{ i8 MetaDataX
-, repeat pack	trueish ,
-u
-    // trailing space 
-    charz	`" ++ [233]%N ++ runes_of_ascii "` ,string
-int
-, }	, f64 Z9_
-    ,
-} ,
-} // c
-,	} packet trueish {
-@lengthOf(
-    u)uint8 metadata
-    `" ++ [28040; 24687; 31867; 22411]%N ++ runes_of_ascii "` , match	uint8x
-as roots
-{ """ ++ [233]%N ++ runes_of_ascii "t" ++ [233]%N ++ runes_of_ascii """:
-    Pad 0123456789
-: msg_type// " ++ [27880; 37322]%N ++ runes_of_ascii "
-[ ""1"" ,	0 ,10] //	t
-:
-pack,
-[ ""it's"" ,  ""\" ++ [233]%N ++ runes_of_ascii """ ] :u8x
-, [// " ++ [128512]%N ++ runes_of_ascii " emoji
-0123456789 ] :
-MetaDataX
-    // packet A { u8 x, }
-    , },zchar[	00 ] pack @lengthOf( string_ ),// packet A { u8 x, }
-@tag( 4294967296 )
-x_y_z string_ ,
-    } options {A
-    =true float  =	""" ++ [28040; 24687]%N ++ runes_of_ascii """ ; }
-MetaData Header { zchar[//
-7 // `tick` ""quote"" 'q'
-]u128
-, char[]
-/// triple
-// trailing space 
-u , string_ metadata	,
-uint32 f32a `u8 x,` , } options{// trailing space 
-roots
-    =
-    true;
-int =false ; string_=
-"""" }")).
-Eval vm_compute in ("<<<M1249>>>" ++ check (runes_of_ascii "packet x_y_z { @leftPad ()
-    int8
-//x
-// trailing space 
-x_y_z , @lengthOf( f32a ) repeat
-// c
-// trailing space 
-char[ 7 // trailing space 
-]len , int64 matchKey
-    @calculatedFrom( // `tick` ""quote"" 'q'
-""// no comment""
-)
-, @lengthOf(
-roots )
-@lengthOf(
-MetaDataX	)
-int32
-Packet ,// a // b
-@rightPad( ' ') i8i8
-    // " ++ [128512]%N ++ runes_of_ascii " emoji
-    { char Packet @lengthOf(
-//x
-//x
-crc ) `" ++ [28040; 24687; 31867; 22411]%N ++ runes_of_ascii "`
-,} ,@calculatedFrom( """" )repeat zchar[	255]
-i64_ , @tag( 0123456789
-) Logon // " ++ [27880; 37322]%N ++ runes_of_ascii "
-, @lengthOf(  options1 )
-    int32
-Header // `tick` ""quote"" 'q'
-,
-@leftPad (
-    )
-int64 crc
-    , @lengthOf(As )match  trueish as BodyLength { ""\" ++ [233]%N ++ runes_of_ascii """
-// trailing space 
-// @lengthOf(
-: x 0123456789
-:
-/// triple
-// trailing space 
-stringy[ 255,	0 ,
-    """ ++ [128512]%N ++ runes_of_ascii """ , ""packet""]
-    : _x, ""packet"":
-o, 42 :stringy , ""abc"" :
-    Logon ,
-}  ,}")).
-Eval vm_compute in ("<<<M4551>>>" ++ check (runes_of_ascii "packet 
-        //	t
-  As
-	{ @tag(
-10 )
-@lengthOf(
-
-    chars)
-    zchar 
-{
-	//x
-
-	// `tick` ""quote"" 'q'
-    metadata
-
-    {
-	Header
-`it's`	,
-
-    match
-
-    body
-	as
-	i64_	// trailing space 
-      { ""// no comment""	:
-packetx
-	, 
-}/// triple
-,
-	match repeatCount
-
-as 
-asx{
-
-    255
-    :	Foo  , 3
-
-:int, ""1""
-    :chars 
-, }
-    ,
-    uint32 
-repeatCount  @lengthOf( 
-// c
-BodyLength 
-) 
-``, 
+Eval vm_compute in ("<<<M1516>>>" ++ check (runes_of_ascii "// top
+packet // c0a
+  // c0b
+P1 // c1
+{ u8 a // c4
+, // c5a
+  // c5b
+} packet // c7a
+  // c7b
+P2 // c8a
+  // c8b
+{ // c9
+P1 // c10
+, // c11a
+  // c11b
 }
-    , roots, 
-repeat
-    rootA	``
-,
-
-    char
-
-MetaDataX  @lengthOf( crc	) 
-,
-}
-, 
-    // a // b
-  _x
-
-    {
-match	As as
-Foo// @lengthOf(
-	{
-1
-:  
-      // " ++ [27880; 37322]%N ++ runes_of_ascii "
-
-	stringy
-//x
-//	t
-	,
-
-}
-	, }
-	, u8 
-Foo,
-	@calculatedFrom(
-
-    """" )	BodyLength , 
-char[007 ]
-    Z9_@calculatedFrom(
-""CRC32"" 
-) ,
-lengthOf
-,i32  //x
-f32a 
-`{ , }`  ,
-    } ")).
-Eval vm_compute in ("<<<M1223>>>" ++ check (runes_of_ascii "packet
-charz  { // @lengthOf(
-} options
-{
-} packet float	{ metadata Logon ,
-} packet
-    body {
-    @tag(
-    42 // packet A { u8 x, }
-) repeat tag i64_, /// triple
-@lengthOf( string_  )	match chars as
-    Z9_
-    { [65535
-// " ++ [27880; 37322]%N ++ runes_of_ascii "
-//x
-] :
-o // `tick` ""quote"" 'q'
-, [//	t
-""{,}"" ,0123456789
-    , ""packet""
-// packet A { u8 x, }
-//
-, ""abc"" ,255 , """ ++ [233]%N ++ runes_of_ascii "t" ++ [233]%N ++ runes_of_ascii """
-    ,
-// packet A { u8 x, }
-//x
-""x y"" , 3 ]: pack
-    , ""abc""
-:
-matchKey
-    , [ 0123456789 , 1 ] : chars
-    // c
-    1 :int ,  """ ++ [233]%N ++ runes_of_ascii "t" ++ [233]%N ++ runes_of_ascii """ : i64_ , }
-, match Pad as trueish { ""a	b"" : pack
-    , }
-,	@calculatedFrom( """ ++ [28040; 24687]%N ++ runes_of_ascii """
-)
-repeat u128 x
-    ,
-    string A
-,
-lengthOf
-{
-BodyLength T  ,int16 A @lengthOf(
-i8i8
-)//x
-, // " ++ [27880; 37322]%N ++ runes_of_ascii "
-} ,options1 chars  `line1
-line2` ,
-}
-")).
-Eval vm_compute in ("<<<M88>>>" ++ check (runes_of_ascii "// trailing space 
-packet tag {
-    @rightPad
-    // @lengthOf(
-    ( '0' )
-    u128 ,
-@lengthOf(MetaDataX
-    )
-    // c
-    leftPad, // packet A { u8 x, }
-@tag( 1
-    )calculatedFrom
-    @lengthOf( Logon )  , }
-packet string_	{ } packet u128 {char[	0 // packet A { u8 x, }
-]
-chars `say ""hi""`
-,
-int , @leftPad ( '0'
-// @lengthOf(
-//x
-)T { repeat zchar[ 255]
-int
-,zchar  stringy	, }
-    ,repeat zchar{ match leftPad as packetx
-{ [
-""`tick`""
-    ] :
-    lengthOf //x
-,  [  7,""" ++ [128512]%N ++ runes_of_ascii """
-    ,
-00 , ""x y"" , ""packet"" ] :
-    stringy // @lengthOf(
-, [
-42 ,""\n""
-, ""it's"" ,// " ++ [128512]%N ++ runes_of_ascii " emoji
-65535, 1	]
-: msg_type ""packet"" :	a1 ,} , u16 int
-,
-repeat x_y_z float,
-repeat//x
-u64 A `a\` ,
-} , }
-")).
-Eval vm_compute in ("<<<M1042>>>" ++ check (runes_of_ascii "packet Foo { @leftPad
-( '\x00'  )
-    chars {repeat char[]
-tag	`// not a comment` ,repeat u8  T
-,repeat Foo
-BodyLength`it's`,
-zchar
-    { u repeatCount  `" ++ [233]%N ++ runes_of_ascii "` , Header //	t
-, repeat i64 u128 , repeat  charz{ char[] //x
-leftPad,
-    zchar[ // a // b
-42 ] // a // b
-lengthOf
-`{ , }`
-    , } ,} , }
-    , @calculatedFrom( ""it's"" )
-Pad
-{i16 f32a ,
-repeat char[ 10] x `{ , }` ,
-    match metadata
-as
-o {	""" ++ [128512]%N ++ runes_of_ascii """ : metadata , 1
-: rootA , } , } ,
-packetx `{ , }`, } packet
-falsey { }options {MetaDataX // " ++ [128512]%N ++ runes_of_ascii " emoji
-= zchar[ 10
-    //x
-    ] ;  string_
-    = '0'	;
-i8i8=
-// `tick` ""quote"" 'q'
-//x
-true _x  = char[ //	t
-0123456789  ]
-    }
-// a // b
-")).
-Eval vm_compute in ("<<<M1255>>>" ++ check (runes_of_ascii "MetaData MetaDataX { string pack ``  , u32
-    falsey	,
-char[//	t
-65535 ] chars, u64	int ,// c
-}
-options
-{ i8i8= true	;
-float =
-' '
-    ;
-}	packet Foo {// a // b
-@lengthOf( i64_ )
-repeat
-    calculatedFrom{
-    match // a // b
-repeatCount as stringy {
-255 :
-    msg_type  ,65535	: // a // b
-roots ""a\""b""  : repeatCount ,[
-    ""packet"" ,
-""1""]
-:
-    o
-    """ ++ [28040; 24687]%N ++ runes_of_ascii """:zchar ""CRC32"" :A ,}, int64 chars @calculatedFrom( ""a\""b"" )// packet A { u8 x, }
-`say ""hi""`
-, packetx @lengthOf(
-x_y_z ) ,
-    // `tick` ""quote"" 'q'
-    }, stringy @calculatedFrom( """ ++ [28040; 24687]%N ++ runes_of_ascii """) `u8 x,`
-, zchar[	007 ] chars,zchar[ 1
-]f32a `" ++ [28040; 24687; 31867; 22411]%N ++ runes_of_ascii "`
-    , }")).
-Eval vm_compute in ("<<<M279>>>" ++ check (runes_of_ascii "
-MetaData matchKey { i16
-lengthOf, int16
-    asx `it's`
-    ,
-    chars metadata `
-` , char[ 00 ] u128 ,// " ++ [128512]%N ++ runes_of_ascii " emoji
-zchar[ 007 ] falsey
-,  uint64 packetx
-, }
-    packet string_
-    {
-}root
-packet stringy{u64 packetx	@lengthOf( falsey // @lengthOf(
-) `crlf
-line` , falsey options1
-    , repeat char[] calculatedFrom , @rightPad ( '\x00' )
-i64 // c
-charz
-    @lengthOf(
-    x_y_z )
-    `u8 x,`,
-// @lengthOf(
-//x
-@lengthOf( rootA )char[] BodyLength `it's`
-, msg_type@calculatedFrom( // trailing space 
-""packet"") ,
-    // " ++ [27880; 37322]%N ++ runes_of_ascii "
-    lengthOf {zchar[
-65535	]tag
-`
-`
-    , }
-    , } 	 ")).
-Eval vm_compute in ("<<<M1359>>>" ++ check (runes_of_ascii "packet  Foo {
-@calculatedFrom(
-""`tick`"" ) @rightPad
-    ( ' ' )
-/// triple
-//x
-repeat float { repeatCount
-    , /// triple
-zchar[ 0123456789
-    ]rootA
-@calculatedFrom(	""{,}"")
-, match
-// c
-// a // b
-matchKey
-as T { ""\n"" :o
-//
-// `tick` ""quote"" 'q'
-00 : tag [3 // trailing space 
-, 65535
-    // trailing space 
-    ] : body,	}	,
-} ,
-@rightPad
-    // @lengthOf(
-    (
-    ' ' ) @leftPad
-('0' ) string packetx @calculatedFrom(""x y"" )
-    ,  @lengthOf( charz ) string i64_ `crlf
-line`, @rightPad  ('0' ) repeat string calculatedFrom `tab	here`,}
-")).
-Eval vm_compute in ("<<<M1036>>>" ++ check (runes_of_ascii "packet
-    packetx
-{@calculatedFrom( ""packet""
-)
-    // " ++ [27880; 37322]%N ++ runes_of_ascii "
-    @calculatedFrom( ""// no comment"" ) @leftPad /// triple
-(	'0') //	t
-Z9_ T
-, leftPad uint8x ,@tag( 4294967296
-    //
-    ) leftPad //
-{ roots { char options1 , }, match Pad
-    as int{ [
-10 ]
-    :roots//	t
-,
-[	""CRC32"" , ""1"" , 3  ,7
-    ,// " ++ [27880; 37322]%N ++ runes_of_ascii "
-0
-, 0,
-    /// triple
-    ""CRC32"" , 7
-// `tick` ""quote"" 'q'
-// a // b
-]	:Packet
-,	1
-    : tag ,1:
-    matchKey [	42]:
-_x }
-, repeat	tag
-// packet A { u8 x, }
-// " ++ [128512]%N ++ runes_of_ascii " emoji
-{ metadata `" ++ [233]%N ++ runes_of_ascii "`
-,  }, //	t
-u
-    `a\` , } ,  }
-")).
-Eval vm_compute in ("<<<M503>>>" ++ check (runes_of_ascii "options {tag =	false
-    ;  } root packet MetaDataX {repeat a1 { // packet A { u8 x, }
-match options1 as _x { [ ""1""
-    ] :
-    //	t
-    leftPad
-, """" :Z9_ ,  ""a	b"" :leftPad ,
-/// triple
-// " ++ [128512]%N ++ runes_of_ascii " emoji
-},
-} , o , // @lengthOf(
-@lengthOf( x ) calculatedFrom { repeat charz ,char[ 0123456789 ]
-Pad , } , } // a // b
-MetaData roots
-{ }
+    // c12
 packet
-// `tick` ""quote"" 'q'
-//	t
-T {
-match metadata // " ++ [128512]%N ++ runes_of_ascii " emoji
-as BodyLength {
-    0 : Packet ,
-""" ++ [233]%N ++ runes_of_ascii "t" ++ [233]%N ++ runes_of_ascii """
-: f32a, //x
-""// no comment""
-: float ,
-// packet A { u8 x, }
-//	t
-}, }
-")).
-Eval vm_compute in ("<<<M472>>>" ++ check (runes_of_ascii "MetaData a1{ f64
-    int
-    , i32
-o	`two words` ,
-char[3	] lengthOf
-    , zchar[ 7
-] Header , u32 x_y_z , char[3 ] matchKey
-    ,
-    }packet falsey{@lengthOf(
-    i8i8 ) match MetaDataX	as calculatedFrom  { 00
-:
-float  , // " ++ [27880; 37322]%N ++ runes_of_ascii "
-7 // " ++ [128512]%N ++ runes_of_ascii " emoji
-: MetaDataX
-,""" ++ [28040; 24687]%N ++ runes_of_ascii """ :
-    options1 , [ ""a\\"" // packet A { u8 x, }
-]: charz	,
-},match T
-    // trailing space 
-    as Z9_ { [
-    ""it's"" ] : falsey //
+    // c13
+P3 // c14a
+  // c14b
+{ // c15
+P2 // c16a
+  // c16b
 ,
-255	:Foo , ""a\\""
-    : Header , }, }
-    MetaData
-    lengthOf { As rootA `doc` , }
-")).
-Eval vm_compute in ("<<<M508>>>" ++ check (runes_of_ascii "packet Pad {
-roots
-    int , @lengthOf(string_	) repeat char[] x, @calculatedFrom( ""CRC32""
-) u16 A	@lengthOf(  string_ ) `line1
-line2` , i32 zchar
-// `tick` ""quote"" 'q'
-// " ++ [27880; 37322]%N ++ runes_of_ascii "
-`say ""hi""`,match roots as i64_ /// triple
-{
-[ 4294967296,  ""abc"", ""x y"",// packet A { u8 x, }
-""a	b"" ,
-""a	b""] : Z9_ [ //x
-""// no comment"" , ""\n"" , 42 ,
-1 , ""\" ++ [233]%N ++ runes_of_ascii """
-,1 , 7
-    , 3
-]:  Header  ,[ //x
-""" ++ [128512]%N ++ runes_of_ascii """ , ""\" ++ [233]%N ++ runes_of_ascii """ ,
-""\" ++ [233]%N ++ runes_of_ascii """
-,00
-    ,
-    """ ++ [233]%N ++ runes_of_ascii "t" ++ [233]%N ++ runes_of_ascii """
-, 1
-, 00 ,	3 ] :	A , }, char[ 10
-] a1
-    ,	}
-
-")).
-Eval vm_compute in ("<<<M4596>>>" ++ check (runes_of_ascii "packet a1 {
-    uint8 As,// `tick` ""quote"" 'q'
-    char[1] chars @lengthOf(msg_type),
-    repeat char[1] x_y_z `two words`,// c
-    @tag(00)
-    int32 i8i8,
-    u64 trueish,
-    // @lengthOf(
-    @lengthOf(body)
-    int16 float @lengthOf(tag),// " ++ [128512]%N ++ runes_of_ascii " emoji
-    x @calculatedFrom(""`tick`""),
-}
-
-MetaData x_y_z {
-    char[10] chars,
-    Z9_ pack `
-    `,
-    string As,//x
-    len int,
-    A Z9_,
-}
-
-options {
-    o = 0123456789;
-    _x = ' ';
-}")).
-Eval vm_compute in ("<<<M180>>>" ++ check (runes_of_ascii "  packet repeatCount {
-@rightPad (' ' )
-char[42]	Header @calculatedFrom( ""a\\"" )
-    ,
-// packet A { u8 x, }
-// packet A { u8 x, }
-@tag( 10 ) i64 options1@calculatedFrom( ""x y"" )
-,  Packet{ i64 lengthOf@calculatedFrom( ""abc""
-)
-    // " ++ [128512]%N ++ runes_of_ascii " emoji
-    , repeat zchar[
-00 ] i64_`u8 x,`
-    , } ,
-    string tag , string
-    o `" ++ [233]%N ++ runes_of_ascii "`
-/// triple
-// " ++ [128512]%N ++ runes_of_ascii " emoji
-, repeat char[  42] a1 `doc`,
-string leftPad @calculatedFrom(""a\\"" ), } 	 ")).
-Eval vm_compute in ("<<<M373>>>" ++ check (runes_of_ascii "options { x =3
-    matchKey= ""a\""b"" // @lengthOf(
-leftPad	= ""packet"" ; T = zchar[ 65535 ]; } MetaData
-    MetaDataX {} MetaData // " ++ [128512]%N ++ runes_of_ascii " emoji
-repeatCount {u8x Pad	, }
-    packet
-T{ @tag( 42  ) repeat MetaDataX `{ , }`
-    // a // b
-    , // @lengthOf(
-float32 x@lengthOf( u8x  )
-`
-`
-    ,int16 matchKey @calculatedFrom( ""\n""	) `two words` , }packet packetx
-{_x
-@calculatedFrom( ""a\""b""
-)`a\`	,
-} // a // b")).
-Eval vm_compute in ("<<<M574>>>" ++ check (runes_of_ascii "packet trueish { @tag( 65535	) //
-char[  7] rootA // " ++ [128512]%N ++ runes_of_ascii " emoji
-`{ , }`,repeat _x// @lengthOf(
-{ _x	T ,
-    },lengthOf @lengthOf( crc	) ,  metadata trueish `tab	here`,	@rightPad
-()	u16 packetx
-`u8 x,` , repeat
-leftPad
-,  @lengthOf( u8x
-) repeat
-int32 MetaDataX `a\` , //	t
-@tag(42  )
-    repeat
-lengthOf, @lengthOf( x )@calculatedFrom(""1""
-) zchar[ 65535
-    ] lengthOf`u8 x,` ,
-    }")).
-Eval vm_compute in ("<<<M4503>>>" ++ check (runes_of_ascii "// " ++ [128512]%N ++ runes_of_ascii " emoji
-
-packet 
-u
-	{ int  `two words`,
-	}
-packet	Packet
-
-{  repeat
-
-    zchar
-
-    Foo  // @lengthOf(
-  , }  packet f32a	// c
-  {
-    uint32
-
-Packet`
-`
-
-    ,
-@lengthOf(  msg_type
-)
-    @calculatedFrom(
-""it's""	)  repeat repeatCount
-
-    {
-	repeat
-
-    zchar[
-
-255]  u8x
-	,
-
-repeat
-MetaDataX 	 // c
-	`" ++ [28040; 24687; 31867; 22411]%N ++ runes_of_ascii "`  , int64
-Pad	`tab	here`
+    // c17
+P1
+    // c18
+, // c19
+} // c20a
+  // c20b
+packet // c21a
+  // c21b
+P4 {
+    // c23
+repeat // c24a
+  // c24b
+P3
+    // c25
 ,
-
-    } ,
-
-    }
-
-")).
-Eval vm_compute in ("<<<M525>>>" ++ check (runes_of_ascii "packet pack// @lengthOf(
-{ repeat
-As// " ++ [27880; 37322]%N ++ runes_of_ascii "
-{ char[65535  ] u128 // a // b
-@lengthOf( a1 )
-`tab	here` ,i8 rootA `crlf
-line`
+    // c26
+P2 // c27
 ,
-    match //x
-i8i8 as
-    zchar { [""1""]
-: tag ,""a	b"":
-u8x
-    ""a\""b""
-: calculatedFrom, } , match leftPad //	t
-as
-    Pad
-{
-// `tick` ""quote"" 'q'
-// trailing space 
-65535 : options1
-},}	,u32 crc
-    , zchar[ 00]
-roots, }
-
-")).
-Eval vm_compute in ("<<<M4030>>>" ++ check (runes_of_ascii "root  packet
-
-    roots
-{
-
-    @tag( 7 // `tick` ""quote"" 'q'
-)int64
-
-    A
-
-,	} 
-
-//
-  //
-    	packet u128 
-// a // b
-	{  msg_type
-Pad
-`line1
-line2`,
-} 
-options{ crc  =""\" ++ [233]%N ++ runes_of_ascii """
-    ;}	root packet
-
-_x
-
-{ @lengthOf(
-pack 	 // " ++ [27880; 37322]%N ++ runes_of_ascii "
-  )	i16
-MetaDataX, calculatedFrom{ packetx @lengthOf(
-
-BodyLength)
-
-    `{ , }` ,
-}	// a // b
-  , 
-} ")).
-Eval vm_compute in ("<<<M1221>>>" ++ check (runes_of_ascii "// trailing space 
-packet // " ++ [27880; 37322]%N ++ runes_of_ascii "
-pack {
-    @lengthOf( Pad )	char[]msg_type,
-}	options
-    {
-// " ++ [128512]%N ++ runes_of_ascii " emoji
-// " ++ [128512]%N ++ runes_of_ascii " emoji
-chars =int32 ;//
-chars
-    =	""CRC32"" }packet f32a
-{
-    @calculatedFrom( ""a\""b""
-    ) zchar
-    @lengthOf( o ) ,int32	o
-    , repeat
-int64 // packet A { u8 x, }
-zchar
-    // " ++ [128512]%N ++ runes_of_ascii " emoji
-    `" ++ [28040; 24687; 31867; 22411]%N ++ runes_of_ascii "`,} /// triple")).
-Eval vm_compute in ("<<<M338>>>" ++ check (runes_of_ascii "root packet // `tick` ""quote"" 'q'
-roots{@rightPad (// trailing space 
-'0'
-)char[255 ] T`line1
-line2`
-,}packet msg_type {	Logon { f64 x_y_z`` ,
-    },	i8 pack @lengthOf( stringy )
-, @tag(
-    4294967296)char[] msg_type ,
-stringy // a // b
-{ match x as
-    roots { 1 :
-options1 ,
-    ""it's"" : BodyLength , }, } , }
-")).
-Eval vm_compute in ("<<<M1981>>>" ++ check (runes_of_ascii "MetaData
-    u { }  options {
-// c
-// @lengthOf(
-float = int8 ;rootA =false ; As =	int16 // `tick` ""quote"" 'q'
-repeatCount
-    // trailing space 
-    =
-    int16
-; u8x =
-    //	t
-    '\x00' ; } } options	{
-    repeatCount
-= 0
-u128
-    //
-    = false ; i64_
-// trailing space 
-// `tick` ""quote"" 'q'
-= '0' ; //	t
+    // c28
 }
-")).
-Eval vm_compute in ("<<<M752>>>" ++ check (runes_of_ascii "packet o {@leftPad () repeat pack { zchar[ 0123456789 ] o`say ""hi""`  ,
-} ,  }
-    packet T { match T as
-pack
-{65535 :
-// " ++ [27880; 37322]%N ++ runes_of_ascii "
-//x
-roots
-    // " ++ [27880; 37322]%N ++ runes_of_ascii "
-    ,} , matchKey Logon	, match f32a  as
-    x { 3 :
-    i8i8  ,	1 : a1,
-    // " ++ [128512]%N ++ runes_of_ascii " emoji
-    """ ++ [128512]%N ++ runes_of_ascii """
-:	o, 7 :
-BodyLength // c
-,	}
-, repeat i32 u128 , // trailing space 
-}
-")).
-Eval vm_compute in ("<<<M1982>>>" ++ check (runes_of_ascii "MetaData
-    u { }  options {
-// c
-// @lengthOf(
-float = int8 ;rootA =false ; As =	int16 // `tick` ""quote"" 'q'
-repeatCount
-    // trailing space 
-    =
-    int16
-; u8x =
-    //	t
-    '\x00' ; options }	{
-    repeatCount
-= 0
-u128
-    //
-    = false ; i64_
-// trailing space 
-// `tick` ""quote"" 'q'
-= '0' ; //	t
-}
-")).
-Eval vm_compute in ("<<<M1975>>>" ++ check (runes_of_ascii "MetaData
-    u { }  options {
-// c
-// @lengthOf(
-float = int8 ;rootA =false ; As =	int16 // `tick` ""quote"" 'q'
-repeatCount
-    // trailing space 
-    =
-    int16
-; u8x =
-    //	t
-    '\x00'  } options	{
-    repeatCount
-= 0
-u128
-    //
-    = false ; i64_
-// trailing space 
-// `tick` ""quote"" 'q'
-= '0' ; //	t
-}
-")).
-Eval vm_compute in ("<<<M1935>>>" ++ check (runes_of_ascii "MetaData
-    u { }  options {
-// c
-// @lengthOf(
-float = int8 ;rootA =false ; As =	 // `tick` ""quote"" 'q'
-repeatCount
-    // trailing space 
-    =
-    int16
-; u8x =
-    //	t
-    '\x00' ; } options	{
-    repeatCount
-= 0
-u128
-    //
-    = false ; i64_
-// trailing space 
-// `tick` ""quote"" 'q'
-= '0' ; //	t
-}
-")).
-Eval vm_compute in ("<<<M1292>>>" ++ check (runes_of_ascii "//	t
-packet crc { } MetaData len  { stringy	body `line1
-line2`	, u16 crc , //
-zchar[007 ] Z9_ , Header T,
-} packet stringy //	t
-{	@lengthOf( u8x )match A as
-// @lengthOf(
-/// triple
-BodyLength
-    {
-""{,}"" : o // " ++ [128512]%N ++ runes_of_ascii " emoji
-} ,repeat
-    //
-    zchar[
-255 ]packetx , A `" ++ [233]%N ++ runes_of_ascii "` , BodyLength	msg_type
-    ,	}
-")).
-Eval vm_compute in ("<<<M3857>>>" ++ check (runes_of_ascii "  packet 
-	//	t
-    	// trailing space 
-    _x
-	{ 
-  // packet A { u8 x, }
-      // c
-    char[
-
-3 ]u8x
-    @lengthOf(  u8x )
-, @calculatedFrom( """ ++ [128512]%N ++ runes_of_ascii """// @lengthOf(
-	  )i16  Foo 
-@lengthOf(
-string_)
-
-`doc` 
-,  i64 metadata	, @lengthOf(string_
-
-    )
-    i8  // c
-      u`line1
-line2`  , }
-")).
-Eval vm_compute in ("<<<M4324>>>" ++ check (runes_of_ascii "MetaData
-rootA
-{
-
-} packet 
-BodyLength 
-{  repeat
-
-    int32  falsey
-`a\`	,i64
-
-    rootA
-
-    @lengthOf(
-falsey
-
-    )
-    ,
-}
-    root
-	packet x
-{ u64
-
-A
-
-    `" ++ [233]%N ++ runes_of_ascii "` ,
-
-    }
-	packet 	 // @lengthOf(
-BodyLength
-
-{  } 
-        //x
-    options
-	{ A =
-
-    ""\n"" ;
-}
-")).
-Eval vm_compute in ("<<<M292>>>" ++ check (runes_of_ascii "options { asx = ""{,}"" } packet len{repeat	float
-    As, char[] Packet ,
-i8 body @lengthOf( T
-) //
-,
-}// @lengthOf(
-packet
-    Pad {uint32
-u8x // packet A { u8 x, }
-, /// triple
-@tag( 4294967296 ) @tag(65535)
-@rightPad(
-    )rootA
-    trueish `{ , }`
-    ,
-    } 	 ")).
-Eval vm_compute in ("<<<M1573>>>" ++ check (runes_of_ascii "packet
-//	t
-// trailing space 
-_x {
-// packet A { u8 x, }
-// c
-char[
-3
-    ] u8x @lengthOf(
-u8x ) , @calculatedFrom(""" ++ [128512]%N ++ runes_of_ascii """ // @lengthOf(
-)
-i16	Foo
-@lengthOf(	string_ string_
-    )`doc`	, repeat	i64 metadata , @lengthOf( string_
-) i8 // c
-u  `line1
-line2`	,
-}
-")).
-Eval vm_compute in ("<<<M562>>>" ++ check (runes_of_ascii "root packet a1
-{ repeat
-    /// triple
-    zchar[
-    42 ] x_y_z
-,@tag( 65535 )@tag(
-    // c
-    7
-    )// " ++ [128512]%N ++ runes_of_ascii " emoji
-@lengthOf( // c
-A	)	string
-//
-// " ++ [27880; 37322]%N ++ runes_of_ascii "
-calculatedFrom ,
-    string
-    uint8x
-    ,
-    } MetaData
-    // trailing space 
-    MetaDataX
-{
-}")).
-Eval vm_compute in ("<<<M67>>>" ++ check (runes_of_ascii "packet lengthOf {// c
-} root packet
-asx { u32 Z9_
-`say ""hi""` ,
-@tag( 007
-    )match
-    u8x as Logon {
-    [ ""abc""	]: tag,0123456789 : tag,  """ ++ [233]%N ++ runes_of_ascii "t" ++ [233]%N ++ runes_of_ascii """ : int
-    ,
-""`tick`"" : options1 , } ,@leftPad
-( )  repeat
-string  tag
-    ,falsey `// not a comment` ,
-}
-")).
-Eval vm_compute in ("<<<M1549>>>" ++ check (runes_of_ascii "packet
-//	t
-// trailing space 
-_x {
-// packet A { u8 x, }
-// c
-char[
-3
-    ] u8x @lengthOf(
-u8x ) , @calculatedFrom() // @lengthOf(
-""" ++ [128512]%N ++ runes_of_ascii """
-i16	Foo
-@lengthOf(	string_
-    )`doc`	, repeat	i64 metadata , @lengthOf( string_
-) i8 // c
-u  `line1
-line2`	,
-}
-")).
-Eval vm_compute in ("<<<M1537>>>" ++ check (runes_of_ascii "packet
-//	t
-// trailing space 
-_x {
-// packet A { u8 x, }
-// c
-char[
-3
-    ] u8x @lengthOf(
-u8x )  @calculatedFrom(""" ++ [128512]%N ++ runes_of_ascii """ // @lengthOf(
-)
-i16	Foo
-@lengthOf(	string_
-    )`doc`	, repeat	i64 metadata , @lengthOf( string_
-) i8 // c
-u  `line1
-line2`	,
-}
-")).
-Eval vm_compute in ("<<<M1582>>>" ++ check (runes_of_ascii "packet
-//	t
-// trailing space 
-_x {
-// packet A { u8 x, }
-// c
-char[
-3
-    ] u8x @lengthOf(
-u8x ) , @calculatedFrom(""" ++ [128512]%N ++ runes_of_ascii """ // @lengthOf(
-)
-i16	Foo
-@lengthOf(	string_
-    )	, repeat	i64 metadata , @lengthOf( string_
-) i8 // c
-u  `line1
-line2`	,
-}
-")).
-Eval vm_compute in ("<<<M4186>>>" ++ check (runes_of_ascii "MetaData u {
-}
-
-options {
-    // c
-    // @lengthOf(
-    float = int8;
-    rootA = false;
-    As = int16// `tick` ""quote"" 'q'
-    repeatCount = int16;
-    u8x = '\x00'
-}
-
-options {
-    repeatCount = 0
-    u128 = false;
-    i64_ = '0';//	t
-}")).
-Eval vm_compute in ("<<<M2019>>>" ++ check (runes_of_ascii "MetaData
-    u { }  options {
-// c
-// @lengthOf(
-float = int8 ;rootA =false ; As =	int16 // `tick` ""quote"" 'q'
-repeatCount
-    // trailing space 
-    =
-    int16
-; u8x =
-    //	t
-    '\x00' ; } options	{
-    repeatCount
-= 0
-u128")).
-Eval vm_compute in ("<<<M1332>>>" ++ check (runes_of_ascii "// packet A { u8 x, }
-MetaData chars	{  Header  u128  ,
-BodyLength
-u8x//	t
-`two words` // " ++ [128512]%N ++ runes_of_ascii " emoji
-, uint8x
-Header// packet A { u8 x, }
-`say ""hi""` ,
-rootA //x
-A // c
-`{ , }` , char[ 00 ]	leftPad
-, i64 // a // b
-As , }
-")).
-Eval vm_compute in ("<<<M3264>>>" ++ check (runes_of_ascii "// top
-MetaData // c0
-float // c1
-{ // c2
-float64 // c3
-charz // c4
-`
-` // c5
-, // c6
-} // c7
-root // c8
-packet // c9
-chars // c10
-{ // c11
-@rightPad // c12
-( // c13
-'0' // c14
-) // c15
-Foo // c16
-, // c17
-} // c18
-")).
-Eval vm_compute in ("<<<M4562>>>" ++ check (runes_of_ascii "
-options
-
-    {
-	}
-
-MetaData
-	len
-	{crc
-
-Foo
-
-, char[] x_y_z`// not a comment`
-, }
-options{
-a1  =
-""" ++ [128512]%N ++ runes_of_ascii """
-
-    ;
-    _x =
-	0123456789
-    _x =
-
-    true u8x 
-= ""packet""	trueish
-
-    = string // " ++ [27880; 37322]%N ++ runes_of_ascii "
-  ; } //
-")).
-Eval vm_compute in ("<<<M117>>>" ++ check (runes_of_ascii "root packet // packet A { u8 x, }
-f32a
-{ @lengthOf( int )char[]
-    //x
-    o, a1 @lengthOf( packetx
-) // " ++ [27880; 37322]%N ++ runes_of_ascii "
-`u8 x,`
-/// triple
-/// triple
-,
-// " ++ [128512]%N ++ runes_of_ascii " emoji
-// @lengthOf(
-@calculatedFrom( ""1""
-)u8
-Header ,
-    }")).
-Eval vm_compute in ("<<<M889>>>" ++ check (runes_of_ascii "MetaData T {
-// c
-//	t
-trueish i64_ `" ++ [233]%N ++ runes_of_ascii "` // c
-, f64 a1	`doc` ,int A, u32
-crc `" ++ [28040; 24687; 31867; 22411]%N ++ runes_of_ascii "`, charz _x
-/// triple
-// trailing space 
-,
-    // trailing space 
-    char[// packet A { u8 x, }
-255 ] msg_type `" ++ [28040; 24687; 31867; 22411]%N ++ runes_of_ascii "` , }
-")).
-Eval vm_compute in ("<<<M1743>>>" ++ check (runes_of_ascii "options { trueish = ""`tick`"" ; string_= """ ++ [233]%N ++ runes_of_ascii "t" ++ [233]%N ++ runes_of_ascii """
-    // c
-    } root
-    packet body { @calculatedFrom( stringy
-""a	b"" ) `line1
-line2` , }
-packet Logon {
-    @leftPad(
-    ' ' ) //	t
-u16 string_ `u8 x,` ,
-}
-")).
-Eval vm_compute in ("<<<M1744>>>" ++ check (runes_of_ascii "options { trueish = ""`tick`"" ; string_= """ ++ [233]%N ++ runes_of_ascii "t" ++ [233]%N ++ runes_of_ascii """
-    // c
-    } root
-    packet body { repeat @calculatedFrom(
-""a	b"" ) `line1
-line2` , }
-packet Logon {
-    @leftPad(
-    ' ' ) //	t
-u16 string_ `u8 x,` ,
-}
-")).
-Eval vm_compute in ("<<<M4521>>>" ++ check (runes_of_ascii "
-
-  MetaData x_y_z { string
-msg_type`" ++ [233]%N ++ runes_of_ascii "`
-	,
-}
-
-    packet	chars{
-
-repeat
-
-i32 metadata
-    `say ""hi""`
-
-,@leftPad (
-	) @tag( 0123456789 )
-repeat zchar[ 
-
-    // a // b
-	007]
-	//x
-		lengthOf , }
-")).
-Eval vm_compute in ("<<<M326>>>" ++ check (runes_of_ascii "// @lengthOf(
-root packet
-MetaDataX{
-    repeat
-i16
-packetx, @tag( 007 )
-x
-    @lengthOf(
-_x
-)
-,
-@calculatedFrom(  """ ++ [28040; 24687]%N ++ runes_of_ascii """ ) repeat
-Pad ,	@lengthOf(
-falsey) @tag( 00 ) @tag( 3
-    )string i8i8,}")).
-Eval vm_compute in ("<<<M1746>>>" ++ check (runes_of_ascii "options { trueish = ""`tick`"" ; string_= """ ++ [233]%N ++ runes_of_ascii "t" ++ [233]%N ++ runes_of_ascii """
-    // c
-    } root
-    packet body { stringy 
-""a	b"" ) `line1
-line2` , }
-packet Logon {
-    @leftPad(
-    ' ' ) //	t
-u16 string_ `u8 x,` ,
-}
-")).
-Eval vm_compute in ("<<<M372>>>" ++ check (runes_of_ascii "MetaData // " ++ [128512]%N ++ runes_of_ascii " emoji
-chars { int64 metadata	,
-char[00] stringy
-//
-// c
-,
-    f64 Foo ,} options {	} options {As = char[ 4294967296
-]A =
-""x y""options1=	float32 Logon =  '\x00' ;	}
-")).
-Eval vm_compute in ("<<<M1107>>>" ++ check (runes_of_ascii "MetaData
-// `tick` ""quote"" 'q'
-/// triple
-matchKey// " ++ [27880; 37322]%N ++ runes_of_ascii "
-{  char[ //x
-255
-] Pad`it's`
-, u8
-x_y_z //
-, i64_ packetx// a // b
-`tab	here` // " ++ [128512]%N ++ runes_of_ascii " emoji
-,trueish
-zchar`it's` , }
-
-")).
-Eval vm_compute in ("<<<M4033>>>" ++ check (runes_of_ascii "
-MetaData tag
-{  char[ 
-3 
-	    // trailing space 
-  ]	u8x ,
-	packetx
-a1
-	,
-    } 	 // packet A { u8 x, }
-    MetaData chars 
-{
-    i16 uint8x 
-`tab	here`
-    ,  }
-
-")).
-Eval vm_compute in ("<<<M3556>>>" ++ check (runes_of_ascii "
-options {
-	LittleEndian
-
-    =true ;}  packet
-    B
-	{u8
-	a
-,string
-
-    s  , }
+    // c29
 root
-
-    packet
-
-    P
-	{ u16
-L@lengthOf(
-B )
-
-    , B , u8 t  , 
-}")).
-Eval vm_compute in ("<<<M234>>>" ++ check (runes_of_ascii "options
-{ f32a= zchar[3
-//
-// c
-]
-// " ++ [128512]%N ++ runes_of_ascii " emoji
-//	t
-}	packet falsey
-{
-Z9_ ,body
-    @calculatedFrom( //
-""\n""
-// packet A { u8 x, }
-// c
-)
-    ,} options { }
+    // c30
+packet // c31a
+  // c31b
+P5 // c32
+{ // c33a
+  // c33b
+P4 // c34a
+  // c34b
+, // c35a
+  // c35b
+P3 // c36
+, // c37
+P1 // c38
+, // c39
+u8 // c40
+K , match // c43a
+  // c43b
+K // c44a
+  // c44b
+as
+    // c45
+Body // c46a
+  // c46b
+{ // c47a
+  // c47b
+4
+    // c48
+: // c49
+P4 // c50
+, // c51a
+  // c51b
+3 // c52a
+  // c52b
+: // c53a
+  // c53b
+P3 // c54a
+  // c54b
+, // c55a
+  // c55b
+2
+    // c56
+:
+    // c57
+P2 // c58
+, 1
+    // c60
+: // c61
+P1
+    // c62
+, // c63
+} , }
+    // c66
 ")).
-Eval vm_compute in ("<<<M4012>>>" ++ check (runes_of_ascii "packet A {
+Eval vm_compute in ("<<<M1621>>>" ++ check (runes_of_ascii "packet A {
+    @lengthOf(lengthOf)
+    int16 packetx @calculatedFrom(""1""),
+    repeat u64 Packet `
+        `,
+    match trueish as roots {
+        3 : A,
+        ""x y"" : BodyLength,
+        42 : Foo,
+    },
+}
+
+packet As {
+    msg_type @lengthOf(u),
+}
+
+root packet zchar {
+    i8i8 i8i8 `
+        `,
+    zchar {
+        int8 Foo `a\`,
+    },
+    f32 pack @lengthOf(crc),
+    @calculatedFrom(""{,}"")
+    // " ++ [27880; 37322]%N ++ runes_of_ascii "
+    match crc as roots {
+        65535 : int,
+        ""packet"" : float,
+        00 : zchar,
+        [""x y""] : options1,
+        ""it's"" : x,
+    },
+    @lengthOf(Packet)
+    match x as As {
+        //	t
+        0 : lengthOf,
+        //	t
+        3 : pack,
+        ""it's"" : x_y_z,
+        ""a\""b"" : metadata,
+    },
+    uint16 i8i8,
+}// a // b")).
+Eval vm_compute in ("<<<M1893>>>" ++ check (runes_of_ascii "// top
+    packet
+	// c0
+Logon 	 // c1
+	{
+string // c3
+
+user
+,// c5
+      }
+
+    root  // c7
+packet// c8
+	Frame {
+    u8
+    K// c12
+	,
+    // c13
+  match 
+// c14
+K  // c15a
+	// c15b
+	as
+    // c16
+  	Body	// c17
+
+{  // c18a
+    // c18b
+  1: 
+        // c20
+
+Logon 	 // c21a
+    // c21b
+    ,// c22
+    2 // c23
+	  :
+
+Logout 
+// c25
+    , 	 // c26
+    } // c27a
+	// c27b
+      , 	 // c28a
+// c28b
+Tail // c29a
+  // c29b
+	,  // c30
+	}
+
+    packet  
+  // c32
+
+  Logout  // c33
+{	// c34a
+	// c34b
+
+	u16 
+        // c35
+
+	reason	// c36
+    , // c37a
+// c37b
+  }	packet Tail // c40
+  {
+	// c41
+    u32	// c42
+		crc 
+
+// c43
+,}
+")).
+Eval vm_compute in ("<<<M1528>>>" ++ check (runes_of_ascii "// top
+packet // c0
+u128 // c1a
+  // c1b
+{ u8 // c3
+a // c4a
+  // c4b
+,
+    // c5
+} // c6a
+  // c6b
+root // c7a
+  // c7b
+packet // c8a
+  // c8b
+Msg // c9
+{ // c10a
+  // c10b
+u8 // c11a
+  // c11b
+k // c12a
+  // c12b
+,
+    // c13
+u24 // c14
+{ u8 // c16a
+  // c16b
+Hi
+    // c17
+, // c18
+u16 Lo
+    // c20
+,
+    // c21
+}
+    // c22
+, // c23
+repeat
+    // c24
+i24
+    // c25
+{ // c26a
+  // c26b
+u32 // c27
+q // c28a
+  // c28b
+, // c29
+} , // c31
+u128
+    // c32
+, // c33a
+  // c33b
+u16
+    // c34
+float32x
+    // c35
+, string // c37a
+  // c37b
+s // c38
+, }
+    // c40
+")).
+Eval vm_compute in ("<<<M334>>>" ++ check (runes_of_ascii "
+packet a1
+    /// triple
+    { uint8 As ,// `tick` ""quote"" 'q'
+char[ 1] chars
+    @lengthOf(
+    msg_type )  , repeat char[ 1 ] x_y_z `two words`
+    //x
+    , // c
+@tag(00
+)
+int32
+i8i8
+    , u64 trueish ,
+    // @lengthOf(
+    @lengthOf(
+    body )int16 float @lengthOf( tag )
+    , // " ++ [128512]%N ++ runes_of_ascii " emoji
+x // trailing space 
+@calculatedFrom( ""`tick`""	) ,
+} MetaData x_y_z
+    {	char[
+10
+    ]chars,Z9_ pack`
+`  ,  string As
+, //x
+len
+    int ,A Z9_  , }	options { o = 0123456789 ; _x	= ' '
+;
+}")).
+Eval vm_compute in ("<<<M43>>>" ++ check (runes_of_ascii "
+packet A
+{ repeat lengthOf {
+len ,
+    } , @tag(// trailing space 
+42	) match Header
+    as falsey
+{ [
+""" ++ [128512]%N ++ runes_of_ascii """//
+, ""\n"", 4294967296 ]
+    : Packet
+1 :	falsey,
+""\" ++ [233]%N ++ runes_of_ascii """ // " ++ [128512]%N ++ runes_of_ascii " emoji
+:
+    charz } , zchar[255
+]
+// packet A { u8 x, }
+// trailing space 
+rootA , repeat  char[ 10 ]// `tick` ""quote"" 'q'
+f32a
+// trailing space 
+//x
+,@calculatedFrom(  ""// no comment"") char[ 00 ]trueish@calculatedFrom(
+    // " ++ [27880; 37322]%N ++ runes_of_ascii "
+    ""a\""b"" )`line1
+line2` ,}")).
+Eval vm_compute in ("<<<M1434>>>" ++ check (runes_of_ascii "// top
+packet
+    // c0
+float // c1a
+  // c1b
+{ // c2a
+  // c2b
+repeat // c3
+i8i8 MetaDataX // c5
+`it's` // c6
+, rootA // c8
+, // c9a
+  // c9b
+repeat // c10
+int8 // c11
+int // c12
+, match // c14
+repeatCount // c15
+as // c16a
+  // c16b
+x_y_z {
+    // c18
+""{,}"" // c19a
+  // c19b
+: // c20
+Logon // c21
+, // c22a
+  // c22b
+} // c23
+, // c24a
+  // c24b
+} // c25a
+  // c25b
+")).
+Eval vm_compute in ("<<<M1730>>>" ++ check (runes_of_ascii "packet string_ {
+    @lengthOf(int)
+    BodyLength u8x,
+    i64_ `tab	here`,
+    char[3] string_,
+    repeat leftPad `" ++ [28040; 24687; 31867; 22411]%N ++ runes_of_ascii "`,
+    repeat int32 BodyLength `u8 x,`,// `tick` ""quote"" 'q'
+    @tag(4294967296)
+    BodyLength `crlf
+        line`,
+    msg_type Packet `" ++ [233]%N ++ runes_of_ascii "`,
+    float32 string_ @calculatedFrom(""""),
+    asx int `it's`,
+}")).
+Eval vm_compute in ("<<<M2090>>>" ++ check (runes_of_ascii "// top
+MetaData	// c0a
+    // c0b
+float // c1
+      {
+        // c2
+
+  float64	// c3
+  charz  // c4a
+  // c4b
+
+`
+`
+        // c5
+    , 
+
+    // c6
+  } root	// c8
+
+	packet// c9a
+	// c9b
+	chars
+    // c10
+  	{@rightPad ( '0'  // c14
+    	) 
+// c15
+Foo
+    // c16
+    ,
+        // c17
+}
+")).
+Eval vm_compute in ("<<<M519>>>" ++ check (runes_of_ascii "root packet tag { }  packet MetaDataX{char[ char[007	]
+// c
+/// triple
+asx  @calculatedFrom( ""a\""b""
+) `say ""hi""`// " ++ [27880; 37322]%N ++ runes_of_ascii "
+,  @tag(4294967296 )
+    char[1//x
+] packetx @calculatedFrom(""a\""b""
+    ) ,
+// " ++ [128512]%N ++ runes_of_ascii " emoji
+// a // b
+@calculatedFrom(""" ++ [233]%N ++ runes_of_ascii "t" ++ [233]%N ++ runes_of_ascii """  ) repeat pack // " ++ [27880; 37322]%N ++ runes_of_ascii "
+,
+    } // c")).
+Eval vm_compute in ("<<<M529>>>" ++ check (runes_of_ascii "root packet tag { }  packet MetaDataX{char[007	] ]
+// c
+/// triple
+asx  @calculatedFrom( ""a\""b""
+) `say ""hi""`// " ++ [27880; 37322]%N ++ runes_of_ascii "
+,  @tag(4294967296 )
+    char[1//x
+] packetx @calculatedFrom(""a\""b""
+    ) ,
+// " ++ [128512]%N ++ runes_of_ascii " emoji
+// a // b
+@calculatedFrom(""" ++ [233]%N ++ runes_of_ascii "t" ++ [233]%N ++ runes_of_ascii """  ) repeat pack // " ++ [27880; 37322]%N ++ runes_of_ascii "
+,
+    } // c")).
+Eval vm_compute in ("<<<M664>>>" ++ check (runes_of_ascii "root packet tag { }  packet MetaDataX{char[007	]
+// c
+/// triple
+asx  @calculatedFrom( ""a\""b""
+) `say ""hi""`// " ++ [27880; 37322]%N ++ runes_of_ascii "
+,  @tag(4294967296 )
+   ~ char[1//x
+] packetx @calculatedFrom(""a\""b""
+    ) ,
+// " ++ [128512]%N ++ runes_of_ascii " emoji
+// a // b
+@calculatedFrom(""" ++ [233]%N ++ runes_of_ascii "t" ++ [233]%N ++ runes_of_ascii """  ) repeat pack // " ++ [27880; 37322]%N ++ runes_of_ascii "
+,
+    } // c")).
+Eval vm_compute in ("<<<M615>>>" ++ check (runes_of_ascii "root packet tag { }  packet MetaDataX{char[007	]
+// c
+/// triple
+asx  @calculatedFrom( ""a\""b""
+) `say ""hi""`// " ++ [27880; 37322]%N ++ runes_of_ascii "
+,  @tag(4294967296 )
+    char[1//x
+] packetx @calculatedFrom(""a\""b""
+    ) @calculatedFrom(
+// " ++ [128512]%N ++ runes_of_ascii " emoji
+// a // b
+,""" ++ [233]%N ++ runes_of_ascii "t" ++ [233]%N ++ runes_of_ascii """  ) repeat pack // " ++ [27880; 37322]%N ++ runes_of_ascii "
+,
+    } // c")).
+Eval vm_compute in ("<<<M228>>>" ++ check (runes_of_ascii "
+packet
+Z9_  { } packet T
+{
+repeat
+    charz {match float as // " ++ [128512]%N ++ runes_of_ascii " emoji
+stringy {00 : f32a [ 00
+    //x
+    , 00 ,""a\\""
+// packet A { u8 x, }
+// a // b
+, 0 ,	7, 0 ] : As , } ,//	t
+uint32 asx ,
+//
+/// triple
+repeat u8x {
+    repeat
+//x
+//
+u8 string_ ,
+} , } , }
+")).
+Eval vm_compute in ("<<<M568>>>" ++ check (runes_of_ascii "root packet tag { }  packet MetaDataX{char[007	]
+// c
+/// triple
+asx  @calculatedFrom( ""a\""b""
+) `say ""hi""`// " ++ [27880; 37322]%N ++ runes_of_ascii "
+,  @tag( )
+    char[1//x
+] packetx @calculatedFrom(""a\""b""
+    ) ,
+// " ++ [128512]%N ++ runes_of_ascii " emoji
+// a // b
+@calculatedFrom(""" ++ [233]%N ++ runes_of_ascii "t" ++ [233]%N ++ runes_of_ascii """  ) repeat pack // " ++ [27880; 37322]%N ++ runes_of_ascii "
+,
+    } // c")).
+Eval vm_compute in ("<<<M1915>>>" ++ check (runes_of_ascii "root packet tag {
+}
+
+packet MetaDataX {
+    char[007] asx @calculatedFrom(""a\""b"") `say ""hi""`,
+    @tag(4294967296)
+    char[1] packetx @calculatedFrom(""a\""b""),
+    // " ++ [128512]%N ++ runes_of_ascii " emoji
+    // a // b
+    @calculatedFrom(""" ++ [233]%N ++ runes_of_ascii "t" ++ [233]%N ++ runes_of_ascii """)
+    pack,
+}// c")).
+Eval vm_compute in ("<<<M2026>>>" ++ check (runes_of_ascii "// top
+packet B {
+    u8 a,
+}
+
+// c6
+root packet P {
+    // c10
+    u8 K,
+    // c13
+    u8 L @lengthOf(Body),
+    // c19
+    match K as Body {
+        // c24
+        1 : B,
+        // c28
+    },// c30
+}
+// c31")).
+Eval vm_compute in ("<<<M1637>>>" ++ check (runes_of_ascii "
+
+  packet 
+        // `tick` ""quote"" 'q'
+    crc
+// packet A { u8 x, }
+		//	t
+    { u32
+a1  ,  
+  // trailing space 
+roots
+	charz	//
+`two words`,
+}MetaData int
+	{ }/// triple@leftpad
+")).
+Eval vm_compute in ("<<<M2133>>>" ++ check (runes_of_ascii "  // top
+  packet// c0
+    x// c1
+    { 	 // c2
+  @rightPad	// c3
+
+	( 	 // c4
+    )  // c5
+
+  repeat// c6
+  	roots  // c7
+
+	Logon  // c8
+  `doc`  // c9
+  ,  // c10
+  } // c11
+")).
+Eval vm_compute in ("<<<M430>>>" ++ check (runes_of_ascii "packet
+    // `tick` ""quote"" 'q'
+    crc
+// packet A { u8 x, }
+//	t
+{
+u32 a1 ,
+    // trailing space 
+    roots
+charz //
+`two words`, ,	}
+    MetaData int {
+} /// triple")).
+Eval vm_compute in ("<<<M391>>>" ++ check (runes_of_ascii "packet
+    // `tick` ""quote"" 'q'
+    {
+// packet A { u8 x, }
+//	t
+crc
+u32 a1 ,
+    // trailing space 
+    roots
+charz //
+`two words`,	}
+    MetaData int {
+} /// triple")).
+Eval vm_compute in ("<<<M409>>>" ++ check (runes_of_ascii "packet
+    // `tick` ""quote"" 'q'
+    crc
+// packet A { u8 x, }
+//	t
+{
+u32 a1 
+    // trailing space 
+    roots
+charz //
+`two words`,	}
+    MetaData int {
+} /// triple")).
+Eval vm_compute in ("<<<M339>>>" ++ check (runes_of_ascii "//
+packet
+int {@leftPad (
+    '\x00' ) MetaDataX @lengthOf( u128 ) ,u
+    a1 `doc` ,
+    @calculatedFrom(
+    ""a\""b"") i16 repeatCount // @lengthOf(
+`tab	here`
+, }")).
+Eval vm_compute in ("<<<M2114>>>" ++ check (runes_of_ascii "
+packet	A {
+
+    match 
+k  as  n
+{
+
+[1
+
+,
+    ""bb"" , 007,
+	""d"" 
+,
+    5
+,
+    ""f"" ,7 ,	""h""	,
+9 ,""j""
+
+,
+    11
+, ""l""
+	]: B
+
+,
+    2
+	: C  }
+
+    ,
+} ")).
+Eval vm_compute in ("<<<M1599>>>" ++ check (runes_of_ascii "packet A {
     match k as n {
         [
-            1, 22, ""c c"", 4, 5,
-            ""f"", 7, 8, ""i"", 10,
-            11
+            ""a"", 22, ""c c"", 4, ""e"",
+            66, ""g"", 8, ""i"", 10
         ] : B,
         2 : C,
     },
 }")).
-Eval vm_compute in ("<<<M2342>>>" ++ check (runes_of_ascii "// c
-packet x { @lengthOf( metadata ) repeat lengthOf
-,a1${
-trueish	,// c
-repeat//	t
-MetaDataX , } , zchar[
-    42	] rootA // `tick` ""quote"" 'q'
-,
-    }
-")).
-Eval vm_compute in ("<<<M2334>>>" ++ check (runes_of_ascii "// c
-packet x { @lengthOf( metadata ) repeat lengthOf
-,a1{
-trueish	,// c
-repeat//	t
-MetaDataX , } , zchar[
-    42	] , // `tick` ""quote"" 'q'
-rootA
-    }
-")).
-Eval vm_compute in ("<<<M2396>>>" ++ check (runes_of_ascii "// c
-packet  { @lengthOf( metadata ) repeat lengthOf
-,a1{
-trueish	,// c
-repeat//	t
-MetaDataX , } , zchar[
-    42	] rootA // `tick` ""quote"" 'q'
-,
-    }
-")).
-Eval vm_compute in ("<<<M2176>>>" ++ check (runes_of_ascii "options{
-_x
-= true
-} options
-{ o	= /// triple
-false
-    ; chars
-= ""\n"" } root packet	Pad
-/// triple
-// packet A { u8 x, }
-{	,
-    // a // b
-    chars}")).
-Eval vm_compute in ("<<<M4579>>>" ++ check (runes_of_ascii "options {
-    matchKey = 10
-}
-
-MetaData options1 {
-    matchKey o `doc`,
-    rootA tag,
-    uint32 _x `line1
-    line2`,
-    char[] chars `say ""hi""`,
-}")).
-Eval vm_compute in ("<<<M2357>>>" ++ check (runes_of_ascii "// c
- x { @lengthOf( metadata ) repeat lengthOf
-,a1{
-trueish	,// c
-repeat//	t
-MetaDataX , } , zchar[
-    42	] rootA // `tick` ""quote"" 'q'
-,
-    }
-")).
-Eval vm_compute in ("<<<M2104>>>" ++ check (runes_of_ascii "options{
-_x
-= true
-} 
-{ o	= /// triple
-false
-    ; chars
-= ""\n"" } root packet	Pad
-/// triple
-// packet A { u8 x, }
-{	chars
-    // a // b
-    ,}")).
-Eval vm_compute in ("<<<M3550>>>" ++ check (runes_of_ascii "packet
-	B {
-
-    u8
-
-a ,}  root  packet  P
-	{
-    u8
-    K, 
-match
-    K
-
-    as	Body
-
+Eval vm_compute in ("<<<M707>>>" ++ check (runes_of_ascii "root packet len // trailing space 
 {
-
-1
-: B	,
-	},
-
-u16
-    L
-
-@lengthOf(
-
-Body)
-	,}
-")).
-Eval vm_compute in ("<<<M796>>>" ++ check (runes_of_ascii "//
-MetaData  u{uint64	string_
-`doc` ,A metadata`u8 x,`
-, string Logon `u8 x,` , float64 float ,
-    char[] T
-`crlf
-line` , u8 Logon, }
-")).
-Eval vm_compute in ("<<<M647>>>" ++ check (runes_of_ascii "MetaData a1 { x_y_z crc `say ""hi""` , uint16 i8i8 `// not a comment`
-, char[] u `{ , }`
-, Pad Header
-, u32
-    packetx `{ , }` , }
-")).
-Eval vm_compute in ("<<<M1471>>>" ++ check (runes_of_ascii "
-packet
-    falsey { Header@calculatedFrom(""packet""  ) , char[
-    0123456789 ] @leftpadpacketx
-    , } // `tick` ""quote"" 'q'")).
-Eval vm_compute in ("<<<M1154>>>" ++ check (runes_of_ascii "packet MetaDataX
-{repeat tag
-    i64_
-,@calculatedFrom(
-    ""packet"")
-    // trailing space 
-    Packet	`tab	here`
-    , }")).
-Eval vm_compute in ("<<<M3326>>>" ++ check (runes_of_ascii "root packet matchKey { zchar[ 3 ] pack // c
-@calculatedFrom( ""a	b"" ) `doc` , } options { } MetaData A { int8 msg_type , }")).
-Eval vm_compute in ("<<<M3542>>>" ++ check (runes_of_ascii "packet B {
-    u8 a,
-}
-root packet P {
-    u8 K,
-    u8 L @lengthOf(Body),
-    match K as Body {
-        1 : B,
-    },
-}
-")).
-Eval vm_compute in ("<<<M1479>>>" ++ check (runes_of_ascii "
-packet
-    falsey { Header@calculatedFrom(""packet""  ) " ++ [0]%N ++ runes_of_ascii ", char[
-    0123456789 ] packetx
-    , } // `tick` ""quote"" 'q'")).
-Eval vm_compute in ("<<<M2990>>>" ++ check (runes_of_ascii "packet A {
-  match k as n {
-    [""a"", ""bb"", ""c c"", ""d"", ""e"", ""f"", ""g"", ""h"", ""i"", ""j"", ""k"", ""l""] : B,
-    2 : C
-  },
-}")).
-Eval vm_compute in ("<<<M3045>>>" ++ check (runes_of_ascii "packet A {
-    u16 len @lengthOf(body) `tab
-	x`,
-    u32 crc @calculatedFrom(""CRC32"") `tab
-	x`,
-    string body,
-}")).
-Eval vm_compute in ("<<<M257>>>" ++ check (runes_of_ascii "options
-{ u // a // b
-=42 x_y_z
-    =' ' ;msg_type =
-    true ; u
-=10 ;  } options { zchar =
-uint8
-;  } // c")).
-Eval vm_compute in ("<<<M406>>>" ++ check (runes_of_ascii "options	{ roots = ""CRC32""zchar
-= string; f32a
-=string ; pack
-    =
-""x y"" }options {
-    // @lengthOf(
-    }")).
-Eval vm_compute in ("<<<M3692>>>" ++ check (runes_of_ascii "packet metadata {
-    Logon {
-        A `" ++ [28040; 24687; 31867; 22411]%N ++ runes_of_ascii "`,
-        tag o,
-    },
-    zchar len `// not a comment`,
-}")).
-Eval vm_compute in ("<<<M3770>>>" ++ check (runes_of_ascii "packet chars {
-    // c
-}
-
-packet MetaDataX {
-    @tag(42)
-    i16 string_,
-    repeat x `say ""hi""`,
-}")).
-Eval vm_compute in ("<<<M3993>>>" ++ check (runes_of_ascii "MetaData float {
-    float64 charz `
-        `,
-}
-
-root packet chars {
-    @rightPad('0')
-    Foo,
-}")).
-Eval vm_compute in ("<<<M2959>>>" ++ check (runes_of_ascii "packet A {
-  match k as n {
-    [""a"", ""bb"", 007, ""d"", ""e"", 66, ""g"", ""h"", 9] : B,
-    2 : C
-  },
-}")).
-Eval vm_compute in ("<<<M1095>>>" ++ check (runes_of_ascii "// @lengthOf(
-MetaData Logon	{	char[]
-//	t
 // " ++ [27880; 37322]%N ++ runes_of_ascii "
-Foo // c
-, T
-roots , char[65535 ] Z9_ ,
+//	t
+char[10
+] metadata	@lengthOf( o ) `crlf
+line`,
+    @rightPad
+( ' '
+) string
+    Header")).
+Eval vm_compute in ("<<<M1473>>>" ++ check (runes_of_ascii "
+options{
+	LittleEndian  =
+true
+; 
 }
-")).
-Eval vm_compute in ("<<<M378>>>" ++ check (runes_of_ascii "packet
-len
-    /// triple
-    { @tag(1
-) zchar[1 ] Foo
-@lengthOf( Foo )
-,T zchar
-``
-, }
+    root  packet P  { u16
+	a
+,
 
-")).
-Eval vm_compute in ("<<<M2173>>>" ++ check (runes_of_ascii "options{
-_x
-= true
-} options
-{ o	= /// triple
-false
-    ; chars
-= ""\n"" } root packet	Pad")).
-Eval vm_compute in ("<<<M3274>>>" ++ check (runes_of_ascii "MetaData float {
-// c
-float64 charz `
-` , } root packet chars { @rightPad ( '0' ) Foo , }")).
-Eval vm_compute in ("<<<M3485>>>" ++ check (runes_of_ascii "packet // c
-chars { } packet MetaDataX { @tag( 42 ) i16 string_ , repeat x `say ""hi""` , }")).
-Eval vm_compute in ("<<<M3517>>>" ++ check (runes_of_ascii "packet chars { } packet MetaDataX { @tag( 42 ) i16 string_ , repeat x `say ""hi""` , // c
-}")).
-Eval vm_compute in ("<<<M2238>>>" ++ check (runes_of_ascii "options
-{ } options { BodyLength u16 = Header= f64 ; u128 =
-    true
-    ; } // a // b")).
-Eval vm_compute in ("<<<M1379>>>" ++ check (runes_of_ascii "packet metadata {
-    @lengthOf(  Header) // " ++ [27880; 37322]%N ++ runes_of_ascii "
-float32
-options1
-    `line1
-line2`
-,}")).
-Eval vm_compute in ("<<<M3225>>>" ++ check (runes_of_ascii "packet metadata { Logon { A `" ++ [28040; 24687; 31867; 22411]%N ++ runes_of_ascii "` // c
-, tag o , } , zchar len `// not a comment` , }")).
-Eval vm_compute in ("<<<M2226>>>" ++ check (runes_of_ascii "options
-{ } options  BodyLength= u16 Header= f64 ; u128 =
-    true
-    ; } // a // b")).
-Eval vm_compute in ("<<<M3448>>>" ++ check (runes_of_ascii "packet o { repeat Logon uint8x , } options {
-// c
-asx = zchar[ 3 ] stringy = '\x00' }")).
-Eval vm_compute in ("<<<M4256>>>" ++ check (runes_of_ascii "MetaData body {
-    i64 pack `it's`,
-}
+    u32
+    Sum
 
-packet stringy {
-    int16 calculatedFrom,
-}")).
-Eval vm_compute in ("<<<M2931>>>" ++ check (runes_of_ascii "packet A {
+    @calculatedFrom(
+
+""CRC32"" 
+) , }
+")).
+Eval vm_compute in ("<<<M1229>>>" ++ check (runes_of_ascii "root packet matchKey { // c
+zchar[ 3 ] pack @calculatedFrom( ""a	b"" ) `doc` , } options { } MetaData A { int8 msg_type , }")).
+Eval vm_compute in ("<<<M1261>>>" ++ check (runes_of_ascii "root packet matchKey { zchar[ 3 ] pack @calculatedFrom( ""a	b"" ) `doc` , } options { } MetaData A { // c
+int8 msg_type , }")).
+Eval vm_compute in ("<<<M902>>>" ++ check (runes_of_ascii "packet A {
   match k as n {
-    [1, 22, ""c c"", 4, 5, ""f"", 7] : B,
+    [""a"", ""bb"", ""c c"", ""d"", ""e"", ""f"", ""g"", ""h"", ""i"", ""j"", ""k"", ""l""] : B
     2 : C
   },
 }")).
-Eval vm_compute in ("<<<M3591>>>" ++ check (runes_of_ascii "packet orderItem  {u8
-    a ,}  root packet 
-newOrder
-	{ orderItem , u8	x
-    ,}
-")).
-Eval vm_compute in ("<<<M3557>>>" ++ check (runes_of_ascii "options {
-    FixedStringPadFromLeft = true;
-}
-root packet P {
-    char[4] z,
-}
-")).
-Eval vm_compute in ("<<<M4287>>>" ++ check (runes_of_ascii "  // " ++ [27880; 37322]%N ++ runes_of_ascii "
-options
-	{  u8x 
-=
-    zchar[	0 ]  ; 
-len
-=' '; leftPad  =
-	false;} ")).
-Eval vm_compute in ("<<<M3883>>>" ++ check (runes_of_ascii "packet A {
-    match k as n {
-        [1, 22] : B,
-        2 : C,
+Eval vm_compute in ("<<<M910>>>" ++ check (runes_of_ascii "packet A {
+  match k as n {
+    [""a"", ""bb"", 007, ""d"", ""e"", 66, ""g"", ""h"", 9, ""j"", ""k"", 12] : B
+    2 : C
+  },
+}")).
+Eval vm_compute in ("<<<M1674>>>" ++ check (runes_of_ascii "
+MetaData
+
+    body	{ i64
+	pack
+
+    `it's`
+,
+} 	 // c
+  packet	stringy  {	int16 calculatedFrom 
+, } ")).
+Eval vm_compute in ("<<<M939>>>" ++ check (runes_of_ascii "packet A {
+    Inner {
+        u8 x `a
+
+b`,
+        Deep {
+            u8 y `a
+
+b`,
+        },
     },
 }")).
-Eval vm_compute in ("<<<M4535>>>" ++ check (runes_of_ascii "
-packet  A
-{ B
-
-b `tab
-	x` ,
-B
-    `tab
-	x`, repeat
-B	bs `tab
-	x`
-	,
-} ")).
-Eval vm_compute in ("<<<M4605>>>" ++ check (runes_of_ascii "packet  x {
-	@rightPad
-	( )repeat// c
-	roots	Logon `doc`
-,
-
-    }")).
-Eval vm_compute in ("<<<M3026>>>" ++ check (runes_of_ascii "packet A {
-    B b `a
-
-b`,
-    B `a
-
-b`,
-    repeat B bs `a
-
-b`,
-}")).
-Eval vm_compute in ("<<<M1177>>>" ++ check (runes_of_ascii "packet // @lengthOf(
-o{ }options
-{Logon /// triple
-=
-    00 }
-")).
-Eval vm_compute in ("<<<M1904>>>" ++ check (runes_of_ascii "MetaData
-    u { }  options {
-// c
-// @lengthOf(
-float = int8")).
-Eval vm_compute in ("<<<M3923>>>" ++ check (runes_of_ascii "packet float {
-}
-
-MetaData As {
-    char[] trueish,
-}
-// " ++ [27880; 37322]%N)).
-Eval vm_compute in ("<<<M3382>>>" ++ check (runes_of_ascii "packet x { @rightPad ( ) repeat roots Logon
-// c
-`doc` , }")).
-Eval vm_compute in ("<<<M3945>>>" ++ check (runes_of_ascii "packet falsey {
-    @tag(1)
-    repeat zchar[00] tag,
-}")).
-Eval vm_compute in ("<<<M45>>>" ++ check (runes_of_ascii "
-MetaData int	{ string f32a//	t
-`two words`
-, } //")).
-Eval vm_compute in ("<<<M3526>>>" ++ check (runes_of_ascii "
-
-  root
-packet P 
-{
-char
-	c  ,
-	u8
-
-x
-, 
-}
-")).
-Eval vm_compute in ("<<<M4174>>>" ++ check (runes_of_ascii "options {
-    a = 1;
+Eval vm_compute in ("<<<M1822>>>" ++ check (runes_of_ascii "MetaData asx {
+    chars f32a,
+    string T,
 }
 
 options {
-    a = 1;
+    zchar = 10
+    // " ++ [27880; 37322]%N ++ runes_of_ascii "
+    crc = true
 }")).
-Eval vm_compute in ("<<<M737>>>" ++ check (runes_of_ascii "  MetaData
-options1{ float _x `{ , }`
-, }")).
-Eval vm_compute in ("<<<M3024>>>" ++ check (runes_of_ascii "root packet A {
-    u8 x `a
-    b
-  c`,
-}")).
-Eval vm_compute in ("<<<M3828>>>" ++ check (runes_of_ascii "root packet A {
-    u8 x `x
-        `,
-}")).
-Eval vm_compute in ("<<<M757>>>" ++ check (runes_of_ascii "MetaData Pad { crc x_y_z`{ , }`,
-} 	 ")).
-Eval vm_compute in ("<<<M4541>>>" ++ check (runes_of_ascii "
+Eval vm_compute in ("<<<M1633>>>" ++ check (runes_of_ascii "packet
+o	{repeat 
+Logon
+    uint8x ,	} 
+options	{asx =
+zchar[ 3
+	]
+stringy 
+=
+// c
+'\x00'}
+
+")).
+Eval vm_compute in ("<<<M1477>>>" ++ check (runes_of_ascii "
+
+  root
 packet
 
-    o
-	{ 
-}  // " ++ [128512]%N ++ runes_of_ascii " emoji
+    P {
+
+u16 a
+,u32	Sum
+	@calculatedFrom(
+
+    ""CRC32""
+
+    ) , 
+} ")).
+Eval vm_compute in ("<<<M1188>>>" ++ check (runes_of_ascii "MetaData float { float64 charz // c
+`
+` , } root packet chars { @rightPad ( '0' ) Foo , }")).
+Eval vm_compute in ("<<<M1399>>>" ++ check (runes_of_ascii "packet chars
+// c
+{ } packet MetaDataX { @tag( 42 ) i16 string_ , repeat x `say ""hi""` , }")).
+Eval vm_compute in ("<<<M1729>>>" ++ check (runes_of_ascii "packet A
+
+    { Inner
+{	match
+k  as	n {
+[
+1 , 22 ,
+
+    007
+    ] :B, }, }
+
+,
+
+}
 ")).
-Eval vm_compute in ("<<<M2614>>>" ++ check (runes_of_ascii "packet A { match k as { 1 : B }, }")).
-Eval vm_compute in ("<<<M1027>>>" ++ check (runes_of_ascii "options
-    {Header = '\x00';
+Eval vm_compute in ("<<<M1129>>>" ++ check (runes_of_ascii "packet metadata {
+// c
+Logon { A `" ++ [28040; 24687; 31867; 22411]%N ++ runes_of_ascii "` , tag o , } , zchar len `// not a comment` , }")).
+Eval vm_compute in ("<<<M1630>>>" ++ check (runes_of_ascii "  MetaData
+    repeatCount {
+
+}
+options  {  // packet A { u8 x, }
+
+	} 
+
+// @lengthOf(")).
+Eval vm_compute in ("<<<M1366>>>" ++ check (runes_of_ascii "packet o { repeat Logon uint8x , } options { asx = zchar[ 3 // c
+] stringy = '\x00' }")).
+Eval vm_compute in ("<<<M1304>>>" ++ check (runes_of_ascii "
+// c
+MetaData body { i64 pack `it's` , } packet stringy { int16 calculatedFrom , }")).
+Eval vm_compute in ("<<<M1327>>>" ++ check (runes_of_ascii "MetaData body { i64 pack `it's` , } packet stringy { int16 // c
+calculatedFrom , }")).
+Eval vm_compute in ("<<<M967>>>" ++ check (runes_of_ascii "packet A {
+    u32 crc @calculatedFrom(""\
+""),
+    @calculatedFrom(""\
+"") u8 y,
 }")).
-Eval vm_compute in ("<<<M3043>>>" ++ check (runes_of_ascii "packet A {
+Eval vm_compute in ("<<<M408>>>" ++ check (runes_of_ascii "packet
+    // `tick` ""quote"" 'q'
+    crc
+// packet A { u8 x, }
+//	t
+{
+u32")).
+Eval vm_compute in ("<<<M403>>>" ++ check (runes_of_ascii "packet
+    // `tick` ""quote"" 'q'
+    crc
+// packet A { u8 x, }
+//	t
+{")).
+Eval vm_compute in ("<<<M1487>>>" ++ check (runes_of_ascii "  root
+packet
+
+P {u8
+s_u8
+    ,repeat u8 r_u8 ,u16
+b_len
+,  }
+")).
+Eval vm_compute in ("<<<M943>>>" ++ check (runes_of_ascii "packet A {
+    B b `x
+`,
+    B `x
+`,
+    repeat B bs `x
+`,
+}")).
+Eval vm_compute in ("<<<M1287>>>" ++ check (runes_of_ascii "packet x { @rightPad ( )
+// c
+repeat roots Logon `doc` , }")).
+Eval vm_compute in ("<<<M1973>>>" ++ check (runes_of_ascii "root packet
+
+u128
+        // c
+    {chars`it's` , }
+
+")).
+Eval vm_compute in ("<<<M1725>>>" ++ check (runes_of_ascii "packet
+A
+
+    {u8 x
+`d" ++ [65279]%N ++ runes_of_ascii "`
+    , 	 // c" ++ [65279]%N ++ runes_of_ascii "
+
+	}
+
+")).
+Eval vm_compute in ("<<<M960>>>" ++ check (runes_of_ascii "options {
+    a = ""x\
+y"";
+    b = ""x\
+y""
+}")).
+Eval vm_compute in ("<<<M1666>>>" ++ check (runes_of_ascii "
+options
+	{
+	asx
+	=
+    '0'
+;
+
+    }
+")).
+Eval vm_compute in ("<<<M1087>>>" ++ check (runes_of_ascii "root // a
+ packet // b
+ A // c
+ { }")).
+Eval vm_compute in ("<<<M954>>>" ++ check (runes_of_ascii "packet A {
     u8 x `tab
 	x`,
 }")).
-Eval vm_compute in ("<<<M3132>>>" ++ check (runes_of_ascii "packet A {
- u8 x `d" ++ [8203]%N ++ runes_of_ascii "`, // c" ++ [8203]%N ++ runes_of_ascii "
+Eval vm_compute in ("<<<M654>>>" ++ check (runes_of_ascii "root packet tag { }  packet ")).
+Eval vm_compute in ("<<<M1169>>>" ++ check (runes_of_ascii "root packet pack // c
+{ }")).
+Eval vm_compute in ("<<<M1037>>>" ++ check (runes_of_ascii "// c 	
+packet A {
 }")).
-Eval vm_compute in ("<<<M3683>>>" ++ check (runes_of_ascii "
-
-  // c 	
-    packet 
-A	{ }")).
-Eval vm_compute in ("<<<M1184>>>" ++ check (runes_of_ascii "
-MetaData matchKey
-    {	}")).
-Eval vm_compute in ("<<<M3256>>>" ++ check (runes_of_ascii "root packet // c
-pack { }")).
-Eval vm_compute in ("<<<M1175>>>" ++ check (runes_of_ascii "options { u = string }
-")).
-Eval vm_compute in ("<<<M2575>>>" ++ check (runes_of_ascii "packet A { x y `d`, }")).
-Eval vm_compute in ("<<<M3729>>>" ++ check (runes_of_ascii "MetaData leftPad {
+Eval vm_compute in ("<<<M1012>>>" ++ check (runes_of_ascii "// c" ++ [8233]%N ++ runes_of_ascii "
+packet A {
 }")).
-Eval vm_compute in ("<<<M3472>>>" ++ check (runes_of_ascii "MetaData // c
-o { }")).
-Eval vm_compute in ("<<<M3095>>>" ++ check (runes_of_ascii "packet A {
-}
-// c" ++ [8232]%N)).
-Eval vm_compute in ("<<<M2633>>>" ++ check (runes_of_ascii "packet A { } root")).
-Eval vm_compute in ("<<<M1874>>>" ++ check (runes_of_ascii "MetaData
-    u {")).
-Eval vm_compute in ("<<<M4073>>>" ++ check (runes_of_ascii "MetaData o {
-}")).
-Eval vm_compute in ("<<<M409>>>" ++ check (runes_of_ascii "// " ++ [128512]%N ++ runes_of_ascii " emoji
+Eval vm_compute in ("<<<M1014>>>" ++ check (runes_of_ascii "packet A {
+}// c" ++ [8239]%N)).
+Eval vm_compute in ("<<<M728>>>" ++ check (runes_of_ascii "// a
+// b
 ")).
-Eval vm_compute in ("<<<M1864>>>" ++ check (runes_of_ascii "MetaData")).
-Eval vm_compute in ("<<<M991>>>" ++ check (runes_of_ascii " // " ++ [27880; 37322]%N)).
-Eval vm_compute in ("<<<M2450>>>" ++ check (runes_of_ascii "true1")).
-Eval vm_compute in ("<<<M470>>>" ++ check (runes_of_ascii "//
-
-")).
-Eval vm_compute in ("<<<M2438>>>" ++ check (runes_of_ascii "u8x")).
-Eval vm_compute in ("<<<M2846>>>" ++ check (runes_of_ascii "[ ;")).
-Eval vm_compute in ("<<<M2519>>>" ++ check (runes_of_ascii "`")).
+Eval vm_compute in ("<<<M1020>>>" ++ check (runes_of_ascii "// c" ++ [8287]%N)).
